@@ -12,6 +12,12 @@ copy (`BInv.p1`); the worker that starts on the scan path has just been let in b
 its scope numbered less than the threshold (`room_of_not_occupied`).  Once somebody of the scope has finished, the
 scan path is closed for the whole scope (`finished` marks are never taken back) and (b) alone adds results.
 
+Object roots (classes whose copies are created in two phases) are covered when `max_tries ≤ 1`: the creation pre-step
+keeps its placeholder on a copy of the results private to the worker, so a creation in flight is counted as a
+result-to-be (`InCre`, the list `P` in `BInv.budget`); its success turns it into the placeholder of the test proper
+(`main_start_b`), its failure into the one result filed at the root (`pre_fail_b`).  With `max_tries ≤ 1` the rerun rule
+(b) never fires; with `max_tries ≥ 2` the bound is false for object roots (Props/C03 `root_creation_hidden`).
+
 Technique as in `TravResults.lean` / `TravReady.lean`: a reflexive-transitive frame relation `Fr` for the pieces of
 a step that do not start a test of the class, the invariant `BInv` is preserved along it, and one walk through
 `afterTraverse`, `traverseNode`, `iter`, `iterL`, `runLoop`, `resumeTest`, `resume`.
@@ -51,14 +57,50 @@ scope of `is_started` / `is_finished`: observer `v` counts the results of `u`'s 
 structure BClass (g : Graph) (c : Nat) (M : Option Int) (sh : Shape) : Prop where
   rootNot : (g.node g.root).cls ≠ c
   node : ∀ j, j < g.nodes.length → (g.node j).cls = c →
-    (g.node j).flat = false ∧ (g.node j).objectRoot = false ∧ (g.node j).sets.isEmpty = false ∧
+    (g.node j).flat = false ∧ ((g.node j).objectRoot = false ∨ M.getD 1 ≤ 1) ∧ (g.node j).sets.isEmpty = false ∧
     (g.node j).maxTries = M ∧ (g.node j).shape = sh
   uniq : ∀ j, j < g.nodes.length → (g.node j).cls = c → ∀ u v, u < g.workers.length → v < g.workers.length →
     g.idIn u j = true → g.idIn v j = true → u = v
   scope : ∀ j, j < g.nodes.length → (g.node j).cls = c → ∀ u v, u < g.workers.length → v < g.workers.length →
     g.idIn u j = true → seen g sh v j = inScopeOf sh g v u
+  /-- the results a failed creation pre-step files at an object root carry the name of the pre-step: an observer
+  whose filter matches that name also sees the copy -/
+  preScope : ∀ j, j < g.nodes.length → (g.node j).cls = c → (g.node j).objectRoot = true → ∀ u v, u < g.workers.length →
+    v < g.workers.length → g.idIn u j = true → strIn (scopeFilter g sh v) (preNameOf g j u) = true → seen g sh v j = true
+
+/-- a result name that the scope filter of no observer treats differently from the name of copy `j`: the name of the
+copy itself, or (object roots) a name that only observers of the copy count -/
+def NameOK (g : Graph) (sh : Shape) (j : Nat) (nm : String) : Prop :=
+  nm = (g.node j).name ∨
+  ((g.node j).objectRoot = true ∧
+    ∀ v, v < g.workers.length → strIn (scopeFilter g sh v) nm = true → seen g sh v j = true)
+
+/-- worker `u` is inside the creation pre-step of a copy of class `c` that observer `v` sees: a result-to-be -/
+def InCre (g : Graph) (s : State) (c : Nat) (sh : Shape) (v u : Nat) : Prop :=
+  ∃ j dir uid tag wait, (s.wd u).pc = .test j .pre dir uid tag wait ∧ (g.node j).cls = c ∧ seen g sh v j = true
+
+theorem InCre.of_wd_eq {g : Graph} {s s' : State} {c : Nat} {sh : Shape} {v u : Nat} (h : s'.wd u = s.wd u)
+    (a : InCre g s' c sh v u) : InCre g s c sh v u := by
+  obtain ⟨j, dir, uid, tag, wait, h1, h2, h3⟩ := a
+  exact ⟨j, dir, uid, tag, wait, by rw [← h]; exact h1, h2, h3⟩
 
 /-! ## lists -/
+
+theorem sum_map_le_add (l : List Nat) (hl : l.Nodup) (n : Nat) (f f' : Nat → Nat) (k : Nat) (h1 : f' n ≤ f n + k)
+    (h2 : ∀ j ∈ l, j ≠ n → f' j ≤ f j) : (l.map f').sum ≤ (l.map f).sum + k := by
+  induction l with
+  | nil => simp
+  | cons a r ih =>
+    simp only [List.map_cons, List.sum_cons]
+    rw [List.nodup_cons] at hl
+    by_cases ha : a = n
+    · subst ha
+      have : (r.map f').sum ≤ (r.map f).sum :=
+        sum_map_le r f' f (fun j hj => h2 j (List.mem_cons_of_mem _ hj) (fun e => hl.1 (e ▸ hj)))
+      omega
+    · have := ih hl.2 (fun j hj => h2 j (List.mem_cons_of_mem _ hj))
+      have := h2 a List.mem_cons_self ha
+      omega
 
 theorem sum_le_count (l : List Nat) (f : Nat → Nat) (h : ∀ j ∈ l, f j ≤ 1) :
     (l.map f).sum ≤ (l.filter (fun j => f j != 0)).length := by
@@ -121,6 +163,30 @@ theorem sfr_length (g : Graph) (s : State) (c : Nat) (sh : Shape) (n v : Nat) (h
   obtain ⟨hj1, hj2⟩ := (mem_classNodes g c j).mp hj
   exact filter_all_or_nothing _ _ _ (hres j hj1 hj2)
 
+/-- … and when they carry names no observer's filter tells from the names of their copies, at most `scopedLen` -/
+theorem sfr_length_le (g : Graph) (s : State) (c : Nat) (sh : Shape) (n v : Nat) (hn : n < g.nodes.length)
+    (hflat : (g.node n).flat = false) (hc : (g.node n).cls = c) (hsh : (g.node n).shape = sh) (hv : v < g.workers.length)
+    (hres : ∀ j, j < g.nodes.length → (g.node j).cls = c → ∀ r ∈ (s.nd j).results, NameOK g sh j r.name) :
+    (sharedFilteredResults g s n (some v)).length ≤ scopedLen g s c sh v := by
+  rw [sharedFilteredResults_eq, hsh]
+  unfold sharedResults Graph.copies scopedLen
+  simp only [hflat, Bool.false_eq_true, if_false, List.filter_flatMap, List.length_flatMap, List.map_cons, List.sum_cons]
+  rw [hc]
+  have hmem : n ∈ g.classNodes c := (mem_classNodes g c n).mpr ⟨hn, hc⟩
+  rw [sum_map_split _ (nodup_classNodes g c) n hmem
+    (fun j => ((s.nd j).results.filter (fun r => strIn (scopeFilter g sh v) r.name)).length)]
+  apply sum_map_le
+  intro j hj
+  obtain ⟨hj1, hj2⟩ := (mem_classNodes g c j).mp hj
+  by_cases hs : seen g sh v j = true
+  · rw [if_pos hs]; exact List.length_filter_le _ _
+  · rw [if_neg hs, List.filter_eq_nil_iff.mpr]
+    · exact Nat.le_refl _
+    · intro r hr hin
+      rcases hres j hj1 hj2 r hr with h | ⟨_, h⟩
+      · rw [h] at hin; exact hs hin
+      · exact hs (h v hv hin)
+
 /-! ## `is_finished` with threshold 1 -/
 
 theorem mem_sharedFinished (g : Graph) (s : State) (n v : Nat) :
@@ -177,16 +243,21 @@ structure BInv (g : Graph) (c : Nat) (M : Option Int) (sh : Shape) (s : State) (
     u < g.workers.length ∧ g.idIn u j = true
   /-- a worker executing a copy of the class executes its own copy and holds its `started` mark -/
   infl : ∀ u, L u → ∀ n ph dir uid tag wait, (s.wd u).pc = .test n ph dir uid tag wait → (g.node n).cls = c →
-    n < g.nodes.length ∧ ph = .plain ∧ g.idIn u n = true ∧ (s.nd n).started = some u
-  /-- results carry the name of the copy they are filed at -/
-  resOwn : ∀ j, j < g.nodes.length → (g.node j).cls = c → ∀ r ∈ (s.nd j).results, r.name = (g.node j).name
+    n < g.nodes.length ∧
+    (ph = .pre → (g.node n).objectRoot = true ∧ (s.wd u).preResults.length ≤ (s.nd n).results.length + 1 ∧
+      ∀ r ∈ (s.wd u).preResults, NameOK g sh n r.name) ∧
+    g.idIn u n = true ∧ (s.nd n).started = some u
+  /-- results carry the name of the copy they are filed at (or, at an object root, the name of its creation pre-step) -/
+  resOwn : ∀ j, j < g.nodes.length → (g.node j).cls = c → ∀ r ∈ (s.nd j).results, NameOK g sh j r.name
   /-- until somebody of the owner's scope has finished the class, a copy has no result but the placeholder of the
-  execution in flight on it -/
+  execution (test proper) in flight on it -/
   p1 : ∀ j, j < g.nodes.length → (g.node j).cls = c → (s.nd j).results ≠ [] →
-    (∃ u tag, L u ∧ (∃ ph dir uid wait, (s.wd u).pc = .test j ph dir uid tag wait) ∧
+    (∃ u tag, L u ∧ (∃ ph dir uid wait, (s.wd u).pc = .test j ph dir uid tag wait ∧ ph ≠ .pre) ∧
       (s.nd j).results = [phOf (g.node j).name tag]) ∨
     (∃ u, u < g.workers.length ∧ g.idIn u j = true ∧ FinIn g s c sh u)
-  budget : ∀ v, v < g.workers.length → (scopedLen g s c sh v : Int) ≤ max (max (M.getD 1) 1) (classLimit g s c)
+  /-- the results observer `v` counts, together with the creations in flight (of workers in `L`) on copies it sees -/
+  budget : ∀ v, v < g.workers.length → ∀ P : List Nat, P.Nodup → (∀ u ∈ P, L u ∧ InCre g s c sh v u) →
+    ((scopedLen g s c sh v + P.length : Nat) : Int) ≤ max (max (M.getD 1) 1) (classLimit g s c)
 
 /-! ## the frame of a piece of a step of worker `w` that starts no test of the class -/
 
@@ -326,7 +397,8 @@ theorem BInv.fr {g : Graph} {c w : Nat} {M : Option Int} {sh : Shape} {s s' : St
   infl := fun u hu n ph dir uid tag wait hpc hn => by
     rw [a.others u hu] at hpc
     obtain ⟨h1, h2, h3, h4⟩ := b.infl u hu n ph dir uid tag wait hpc hn
-    refine ⟨h1, h2, h3, ?_⟩
+    refine ⟨h1, ?_, h3, ?_⟩
+    · rw [a.others u hu, a.results n hn]; exact h2
     rcases a.started n hn with h' | h'
     · rw [h', h4]
     · have hul : u < g.workers.length := by
@@ -338,9 +410,9 @@ theorem BInv.fr {g : Graph} {c w : Nat} {M : Option Int} {sh : Shape} {s s' : St
     rcases b.p1 j hj hjc hne with ⟨u, tag, hu, ⟨ph, dir, uid, wait, hpc⟩, hres⟩ | ⟨u, hu, hid, hf⟩
     · exact Or.inl ⟨u, tag, hu, ⟨ph, dir, uid, wait, by rw [a.others u hu]; exact hpc⟩, hres⟩
     · exact Or.inr ⟨u, hu, hid, hf.fr hc hw b a⟩
-  budget := fun v hv => by
+  budget := fun v hv P hP hPm => by
     rw [scopedLen_congr g s s' c sh v a.results]
-    have := b.budget v hv
+    have := b.budget v hv P hP (fun u hu => ⟨(hPm u hu).1, (hPm u hu).2.of_wd_eq (a.others u (hPm u hu).1)⟩)
     have h2 := classLimit_mono g s s' c a.bump
     omega
 
@@ -547,7 +619,7 @@ theorem afterTraverse_fr {g gv : Graph} {c : Nat} {M : Option Int} {sh : Shape} 
 theorem BInv.owner {g : Graph} {c : Nat} {M : Option Int} {sh : Shape} {s : State} {L : Nat → Prop}
     (b : BInv g c M sh s L) (j : Nat) (hj : j < g.nodes.length) (hjc : (g.node j).cls = c) (hne : (s.nd j).results ≠ []) :
     ∃ u, u < g.workers.length ∧ g.idIn u j = true := by
-  rcases b.p1 j hj hjc hne with ⟨u, tag, hu, ⟨ph, dir, uid, wait, hpc⟩, _⟩ | ⟨u, hu, hid, _⟩
+  rcases b.p1 j hj hjc hne with ⟨u, tag, hu, ⟨ph, dir, uid, wait, hpc, _⟩, _⟩ | ⟨u, hu, hid, _⟩
   · have hul : u < g.workers.length := by rw [← b.workersLen]; exact lt_of_isTest s u (by rw [hpc]; rfl)
     exact ⟨u, hul, (b.infl u hu j ph dir uid tag wait hpc hjc).2.2.1⟩
   · exact ⟨u, hu, hid⟩
@@ -566,20 +638,22 @@ theorem scopedLen_scope_eq {g : Graph} {c : Nat} {M : Option Int} {sh : Shape} {
     rw [hc.scope j hj1 hj2 u v hu hv hid, hc.scope j hj1 hj2 u w hu hw hid, inScopeOf_trans sh g v w u hvw]
 
 /-- While nobody of `w`'s scope has finished the class, the results an observer `v` that sees `w`'s copy `n` counts
-are placeholders of executions in flight of distinct workers of `w`'s scope, each holding the `started` mark of
-its copy: they number at most `scopedCount`. (`s0`: the state in which `w` asked `is_occupied`; `s1`: with `w`'s
+are placeholders of executions (tests proper) in flight of distinct workers of `w`'s scope, each holding the `started`
+mark of its copy; the creations in flight `P` on copies `v` sees belong to further distinct workers of the scope holding
+marks: together they number at most `scopedCount`. (`s0`: the state in which `w` asked `is_occupied`; `s1`: with `w`'s
 own mark on `n`.) -/
 theorem scan_count {g : Graph} {c : Nat} {M : Option Int} {sh : Shape} (hc : BClass g c M sh) {s0 s1 : State} {w n v : Nat}
     (hw : w < g.workers.length) (hv : v < g.workers.length) (b : BInv g c M sh s1 (Ex w))
     (hn : n < g.nodes.length) (hnc : (g.node n).cls = c) (hid : g.idIn w n = true)
     (hmarks : ∀ j, j ≠ n → (s1.nd j).started = (s0.nd j).started)
-    (hnf : ¬ FinIn g s1 c sh w) (hseen : seen g sh v n = true) :
-    scopedLen g s1 c sh v ≤ scopedCount g s0 n w := by
+    (hnf : ¬ FinIn g s1 c sh w) (hseen : seen g sh v n = true)
+    (P : List Nat) (hP : P.Nodup) (hPm : ∀ u ∈ P, Ex w u ∧ InCre g s1 c sh v u) :
+    scopedLen g s1 c sh v + P.length ≤ scopedCount g s0 n w := by
   have hvw : inScopeOf sh g v w = true := by rw [← hc.scope n hn hnc w v hw hv hid]; exact hseen
   have hnode := hc.node n hn hnc
   -- every counted copy is being executed by a worker of the scope that holds its mark
   have hA : ∀ j ∈ g.classNodes c, (if seen g sh v j then (s1.nd j).results.length else 0) ≠ 0 →
-      ∃ u, (∃ ph dir uid tag wait, (s1.wd u).pc = .test j ph dir uid tag wait) ∧ (s1.nd j).results.length = 1 ∧
+      ∃ u, (∃ ph dir uid tag wait, (s1.wd u).pc = .test j ph dir uid tag wait ∧ ph ≠ .pre) ∧ (s1.nd j).results.length = 1 ∧
         (s0.nd j).started = some u ∧ inScopeOf sh g w u = true := by
     intro j hj hne
     obtain ⟨hj1, hj2⟩ := (mem_classNodes g c j).mp hj
@@ -589,13 +663,13 @@ theorem scan_count {g : Graph} {c : Nat} {M : Option Int} {sh : Shape} (hc : BCl
       · simp [h] at hne
     have hr : (s1.nd j).results ≠ [] := by
       intro h; simp [h] at hne
-    rcases b.p1 j hj1 hj2 hr with ⟨u, tag, hu, ⟨ph, dir, uid, wait, hpc⟩, hres⟩ | ⟨u, hu, hidu, hf⟩
+    rcases b.p1 j hj1 hj2 hr with ⟨u, tag, hu, ⟨ph, dir, uid, wait, hpc, hph⟩, hres⟩ | ⟨u, hu, hidu, hf⟩
     · obtain ⟨_, _, hidu, hst⟩ := b.infl u hu j ph dir uid tag wait hpc hj2
       have hul : u < g.workers.length := by rw [← b.workersLen]; exact lt_of_isTest s1 u (by rw [hpc]; rfl)
       have hjn : j ≠ n := by
         intro e; subst e
         exact hu (hc.uniq j hj1 hj2 u w hul hw hidu hid)
-      refine ⟨u, ⟨ph, dir, uid, tag, wait, hpc⟩, by rw [hres]; rfl, by rw [← hmarks j hjn]; exact hst, ?_⟩
+      refine ⟨u, ⟨ph, dir, uid, tag, wait, hpc, hph⟩, by rw [hres]; rfl, by rw [← hmarks j hjn]; exact hst, ?_⟩
       rw [← inScopeOf_trans sh g v w u hvw, ← hc.scope j hj1 hj2 u v hul hv hidu]; exact hs
     · exfalso
       apply hnf
@@ -604,13 +678,26 @@ theorem scan_count {g : Graph} {c : Nat} {M : Option Int} {sh : Shape} (hc : BCl
       have hwu : inScopeOf sh g w u = true := by
         rw [← inScopeOf_trans sh g v w u hvw, ← hc.scope j hj1 hj2 u v hu hv hidu]; exact hs
       rw [inScopeOf_trans sh g w u u' hwu]; exact h4
+  -- every creation in flight belongs to a worker of the scope that holds the mark of the copy it creates
+  have hB : ∀ u ∈ P, (∃ j dir uid tag wait, (s1.wd u).pc = .test j .pre dir uid tag wait ∧ j ∈ g.copies n ∧
+      (s0.nd j).started = some u) ∧ inScopeOf sh g w u = true := by
+    intro u hu
+    obtain ⟨huw, j, dir, uid, tag, wait, hpc, hjc, hs⟩ := hPm u hu
+    obtain ⟨hj1, _, hidu, hst⟩ := b.infl u huw j .pre dir uid tag wait hpc hjc
+    have hul : u < g.workers.length := by rw [← b.workersLen]; exact lt_of_isTest s1 u (by rw [hpc]; rfl)
+    have hjn : j ≠ n := by
+      intro e; subst e
+      exact huw (hc.uniq j hj1 hjc u w hul hw hidu hid)
+    refine ⟨⟨j, dir, uid, tag, wait, hpc, (mem_copies g n j hn hnode.1).mpr ⟨hj1, by rw [hjc, hnc]⟩,
+      by rw [← hmarks j hjn]; exact hst⟩, ?_⟩
+    rw [← inScopeOf_trans sh g v w u hvw, ← hc.scope j hj1 hjc u v hul hv hidu]; exact hs
   unfold scopedLen
-  refine Nat.le_trans (sum_le_count _ _ (fun j hj => ?_)) ?_
+  refine Nat.le_trans (Nat.add_le_add_right (sum_le_count _ _ (fun j hj => ?_)) _) ?_
   · by_cases h0 : (if seen g sh v j then (s1.nd j).results.length else 0) = 0
     · omega
     · obtain ⟨u, _, h1, _⟩ := hA j hj h0
       split <;> omega
-  · -- the counted copies, mapped to the holders of their marks
+  · -- the counted copies, mapped to the holders of their marks, and the creating workers
     let A := (g.classNodes c).filter (fun j => (if seen g sh v j then (s1.nd j).results.length else 0) != 0)
     have hAmem : ∀ j ∈ A, j ∈ g.classNodes c ∧ (if seen g sh v j then (s1.nd j).results.length else 0) ≠ 0 := by
       intro j hj
@@ -620,25 +707,41 @@ theorem scan_count {g : Graph} {c : Nat} {M : Option Int} {sh : Shape} (hc : BCl
       apply nodup_map_on
       · exact List.Nodup.sublist List.filter_sublist (nodup_classNodes g c)
       · intro x hx y hy hxy
-        obtain ⟨ux, ⟨ph, dir, uid, tag, wait, hpx⟩, _, hsx, _⟩ := hA x (hAmem x hx).1 (hAmem x hx).2
-        obtain ⟨uy, ⟨ph', dir', uid', tag', wait', hpy⟩, _, hsy, _⟩ := hA y (hAmem y hy).1 (hAmem y hy).2
+        obtain ⟨ux, ⟨ph, dir, uid, tag, wait, hpx, _⟩, _, hsx, _⟩ := hA x (hAmem x hx).1 (hAmem x hx).2
+        obtain ⟨uy, ⟨ph', dir', uid', tag', wait', hpy, _⟩, _, hsy, _⟩ := hA y (hAmem y hy).1 (hAmem y hy).2
         simp only [hsx, hsy, Option.getD_some] at hxy
         subst hxy
         rw [hpx] at hpy
         cases hpy; rfl
-    have hsub : ∀ u ∈ A.map (fun j => ((s0.nd j).started).getD 0),
-        u ∈ (sharedStarted g s0 n).filter (inScopeOf (g.node n).shape g w) := by
-      intro u hu
-      obtain ⟨j, hj, hju⟩ := List.mem_map.mp hu
-      obtain ⟨u', _, _, hs, hsc⟩ := hA j (hAmem j hj).1 (hAmem j hj).2
+    have hnd2 : (A.map (fun j => ((s0.nd j).started).getD 0) ++ P).Nodup := by
+      rw [List.nodup_append]
+      refine ⟨hnd, hP, fun a ha b hb hab => ?_⟩
+      subst hab
+      obtain ⟨j, hj, hju⟩ := List.mem_map.mp ha
+      obtain ⟨u', ⟨ph, dir, uid, tag, wait, hpc, hph⟩, _, hs, _⟩ := hA j (hAmem j hj).1 (hAmem j hj).2
       rw [hs] at hju
       simp only [Option.getD_some] at hju
       subst hju
-      obtain ⟨hj1, hj2⟩ := (mem_classNodes g c j).mp (hAmem j hj).1
-      refine List.mem_filter.mpr ⟨(mem_sharedStarted g s0 n u').mpr ⟨j, ?_, hs⟩, by rw [hnode.2.2.2.2]; exact hsc⟩
-      exact (mem_copies g n j hn hnode.1).mpr ⟨hj1, by rw [hj2, hnc]⟩
-    have := length_le_of_nodup_subset hnd hsub
-    rw [List.length_map] at this
+      obtain ⟨⟨j', dir', uid', tag', wait', hpc', _⟩, _⟩ := hB u' hb
+      rw [hpc] at hpc'
+      cases hpc'
+      exact hph rfl
+    have hsub : ∀ u ∈ A.map (fun j => ((s0.nd j).started).getD 0) ++ P,
+        u ∈ (sharedStarted g s0 n).filter (inScopeOf (g.node n).shape g w) := by
+      intro u hu
+      rcases List.mem_append.mp hu with hu | hu
+      · obtain ⟨j, hj, hju⟩ := List.mem_map.mp hu
+        obtain ⟨u', _, _, hs, hsc⟩ := hA j (hAmem j hj).1 (hAmem j hj).2
+        rw [hs] at hju
+        simp only [Option.getD_some] at hju
+        subst hju
+        obtain ⟨hj1, hj2⟩ := (mem_classNodes g c j).mp (hAmem j hj).1
+        refine List.mem_filter.mpr ⟨(mem_sharedStarted g s0 n u').mpr ⟨j, ?_, hs⟩, by rw [hnode.2.2.2.2]; exact hsc⟩
+        exact (mem_copies g n j hn hnode.1).mpr ⟨hj1, by rw [hj2, hnc]⟩
+      · obtain ⟨⟨j, _, _, _, _, _, hjc, hs⟩, hsc⟩ := hB u hu
+        exact List.mem_filter.mpr ⟨(mem_sharedStarted g s0 n u).mpr ⟨j, hjc, hs⟩, by rw [hnode.2.2.2.2]; exact hsc⟩
+    have := length_le_of_nodup_subset hnd2 hsub
+    rw [List.length_append, List.length_map] at this
     exact this
 
 /-! ## the guarded start of a test of the class -/
@@ -670,14 +773,43 @@ theorem scopedLen_start {g : Graph} {c : Nat} {sh : Shape} {s s' : State} {n : N
     · subst hj; simp [hs]
     · rw [h2 j hj]
 
-/-- THE step: worker `w` has found its copy `n` of the class not occupied (state `s0`), marked it, pulled the
-locations, decided to run, and starts the test.  The invariant holds afterwards, for all workers. -/
-theorem enter_start {g gv : Graph} {c : Nat} {M : Option Int} {sh : Shape} (hc : BClass g c M sh) (hgv : SameNodes gv g)
-    {s0 s1 : State} {w n : Nat} {evs : List Event} (dir : Dir) (hw : w < g.workers.length)
+/-- with retries configured (`max_tries ≥ 2`) the class has no object roots: results carry the names of their copies -/
+theorem BInv.noRoots_names {g : Graph} {c : Nat} {M : Option Int} {sh : Shape} {s : State} {L : Nat → Prop}
+    (hc : BClass g c M sh) (b : BInv g c M sh s L) (hM : 2 ≤ M.getD 1) :
+    ∀ j, j < g.nodes.length → (g.node j).cls = c → ∀ r ∈ (s.nd j).results, r.name = (g.node j).name := by
+  intro j hj hjc r hr
+  rcases b.resOwn j hj hjc r hr with h | ⟨h, _⟩
+  · exact h
+  · rcases (hc.node j hj hjc).2.1 with h' | h'
+    · rw [h] at h'; cases h'
+    · omega
+
+/-- … and nobody is inside a creation -/
+theorem BInv.noRoots_P {g : Graph} {c : Nat} {M : Option Int} {sh : Shape} {s : State} {L : Nat → Prop}
+    (hc : BClass g c M sh) (b : BInv g c M sh s L) (hM : 2 ≤ M.getD 1) {v : Nat} (P : List Nat)
+    (hPm : ∀ u ∈ P, L u ∧ InCre g s c sh v u) : P = [] := by
+  cases P with
+  | nil => rfl
+  | cons u r =>
+    exfalso
+    obtain ⟨hu, j, dir, uid, tag, wait, hpc, hjc, _⟩ := hPm u List.mem_cons_self
+    obtain ⟨hj, h2, _, _⟩ := b.infl u hu j .pre dir uid tag wait hpc hjc
+    rcases (hc.node j hj hjc).2.1 with h' | h'
+    · rw [(h2 rfl).1] at h'; cases h'
+    · omega
+
+/-- The common prefix of a guarded start: worker `w` has found its copy `n` of the class not occupied (state `s0`),
+marked it, pulled the locations and decided to run (state `s1`).  Either nobody of `w`'s scope has finished the class
+and the marks in scope numbered less than the threshold (scan path), or the rerun rule counted the results in scope. -/
+theorem enter_prefix {g gv : Graph} {c : Nat} {M : Option Int} {sh : Shape} (hc : BClass g c M sh) (hgv : SameNodes gv g)
+    {s0 s1 : State} {w n : Nat} {evs : List Event} (hw : w < g.workers.length)
     (b0 : BInv g c M sh s0 (Ex w)) (hn : n < g.nodes.length) (hnc : (g.node n).cls = c) (hid : g.idIn w n = true)
     (hocc : isOccupied gv s0 n w = false)
     (hdec : runDecision gv (pullLocations gv (s0.setNd n (fun d => { d with started := some w })) n) n w = .ok (true, s1, evs)) :
-    BInv g c M sh (startTest gv s1 n w .plain dir).1 All := by
+    BInv g c M sh s1 (Ex w) ∧ (s1.nd n).started = some w ∧ (∀ j, j ≠ n → (s1.nd j).started = (s0.nd j).started) ∧
+    classLimit g s0 c ≤ classLimit g s1 c ∧
+    ((¬ FinIn g s1 c sh w ∧ scopedCount g s0 n w < classLimit g s0 c) ∨
+     (((sharedFilteredResults g s1 n (some w)).length : Int) < M.getD 1 ∧ M.getD 1 ≠ 1)) := by
   have hnode := hc.node n hn hnc
   have hrel : (g.node n).cls = c → g.idIn w n = true := fun _ => hid
   -- the silent prefix
@@ -700,6 +832,44 @@ theorem enter_start {g gv : Graph} {c : Nat} {M : Option Int} {sh : Shape} (hc :
   -- the decision
   have hsets : (gv.node n).sets.isEmpty = false := by rw [hgv.sets]; exact hnode.2.2.1
   have hdecide := runDecision_true_stateful gv _ n w s1 evs hsets hdec
+  refine ⟨b1, hstn, hsto, classLimit_mono g _ _ c fr1.bump, ?_⟩
+  rcases hdecide with ⟨hnotfin, _⟩ | ⟨hcount, hne1⟩
+  · -- scan path: fewer marks in scope than the threshold
+    left
+    have hnf : ¬ FinIn g s1 c sh w := by
+      intro hf
+      have hflat : (gv.node n).flat = false := by rw [hgv.flat]; exact hnode.1
+      apply not_finIn_of_not_finished gv _ n w (by rw [hgv.len]; exact hn) hflat hnotfin
+      obtain ⟨j, u', h1, h2, h3, h4⟩ := hf
+      refine ⟨j, u', by rw [hgv.len]; exact h1, by rw [hgv.cls, hgv.cls, h2, hnc], ?_, ?_⟩
+      · rw [← hnd1 (·.finished) (fun _ => rfl) j]; exact h3
+      · rw [hgv.shape', hnode.2.2.2.2, ← (hgv.sameStatic).inScopeOf_eq] at *; exact h4
+    have h2 := room_of_not_occupied gv s0 n w (by rw [hgv.flat]; exact hnode.1) hocc
+    rw [(hgv.sameStatic).scopedCount_eq, (hgv.sameStatic).limit_eq] at h2
+    have h3 := Nat.le_trans (limit_le_peakLimit g s0 n) (peakLimit_le_classLimit g s0 n hn)
+    rw [hnc] at h3
+    exact ⟨hnf, by omega⟩
+  · -- rerun rule: the results in scope number less than `max_tries`
+    right
+    have hcr : countedResults gv s1 n w = sharedFilteredResults g s1 n (some w) := by
+      unfold countedResults scopeWorker
+      rw [hsets, hstn]
+      simp only [Bool.false_eq_true, if_false]
+      exact sharedFilteredResults_sameNodes hgv s1 n _
+    rw [hcr, hgv.maxTries, hnode.2.2.2.1] at hcount
+    rw [hgv.maxTries, hnode.2.2.2.1] at hne1
+    exact ⟨hcount, hne1⟩
+
+/-- THE step: worker `w` has found its copy `n` of the class not occupied (state `s0`), marked it, pulled the
+locations, decided to run, and starts the test.  The invariant holds afterwards, for all workers. -/
+theorem enter_start {g gv : Graph} {c : Nat} {M : Option Int} {sh : Shape} (hc : BClass g c M sh) (hgv : SameNodes gv g)
+    {s0 s1 : State} {w n : Nat} {evs : List Event} (dir : Dir) (hw : w < g.workers.length)
+    (b0 : BInv g c M sh s0 (Ex w)) (hn : n < g.nodes.length) (hnc : (g.node n).cls = c) (hid : g.idIn w n = true)
+    (hocc : isOccupied gv s0 n w = false)
+    (hdec : runDecision gv (pullLocations gv (s0.setNd n (fun d => { d with started := some w })) n) n w = .ok (true, s1, evs)) :
+    BInv g c M sh (startTest gv s1 n w .plain dir).1 All := by
+  have hnode := hc.node n hn hnc
+  obtain ⟨b1, hstn, hsto, hlim01, hpath⟩ := enter_prefix hc hgv hw b0 hn hnc hid hocc hdec
   -- the state after the start
   have hns1 : n < s1.nodes.length := by rw [b1.nodesLen]; exact hn
   have hws1 : w < s1.workers.length := by rw [b1.workersLen]; exact hw
@@ -729,10 +899,13 @@ theorem enter_start {g gv : Graph} {c : Nat} {M : Option Int} {sh : Shape} (hc :
   have hbump : ∀ j, ((startTest gv s1 n w .plain dir).1.nd j).bump = (s1.nd j).bump := hproj (·.bump) (fun _ _ => rfl)
   have hsta : ∀ j, ((startTest gv s1 n w .plain dir).1.nd j).started = (s1.nd j).started :=
     hproj (·.started) (fun _ _ => rfl)
-  have hlim : classLimit g s0 c ≤ classLimit g (startTest gv s1 n w .plain dir).1 c :=
-    classLimit_mono g _ _ c (fun i => by rw [hbump]; exact fr1.bump i)
+  have hgrow : ∀ j, (s1.nd j).results.length ≤ ((startTest gv s1 n w .plain dir).1.nd j).results.length := by
+    intro j
+    by_cases hj : j = n
+    · subst hj; rw [hndn]; simp
+    · rw [hndo j hj]; exact Nat.le_refl _
   refine ⟨?_, ?_, fun v => ?_, fun j u hj hjc h => ?_, fun u _ n' ph dir' uid tag wait hpc hn' => ?_,
-    fun j hj hjc r hr => ?_, fun j hj hjc hne => ?_, fun v hv => ?_⟩
+    fun j hj hjc r hr => ?_, fun j hj hjc hne => ?_, fun v hv P hP hPm => ?_⟩
   · rw [hfst]; simp only [State.setWd, State.setNd, List.length_modify]; exact b1.nodesLen
   · rw [hfst]; simp only [State.setWd, State.setNd, List.length_modify]; exact b1.workersLen
   · unfold PathC
@@ -744,69 +917,188 @@ theorem enter_start {g gv : Graph} {c : Nat} {M : Option Int} {sh : Shape} (hc :
     · subst huw
       rw [hwdw] at hpc
       cases hpc
-      exact ⟨hn, rfl, hid, by rw [hsta]; exact hstn⟩
-    · rw [hwdo u huw] at hpc
+      exact ⟨hn, (fun h => by cases h), hid, by rw [hsta]; exact hstn⟩
+    · rw [hwdo u huw] at hpc ⊢
       obtain ⟨h1, h2, h3, h4⟩ := b1.infl u huw n' ph dir' uid tag wait hpc hn'
-      exact ⟨h1, h2, h3, by rw [hsta]; exact h4⟩
+      refine ⟨h1, fun hp => ?_, h3, by rw [hsta]; exact h4⟩
+      obtain ⟨a1, a2, a3⟩ := h2 hp
+      exact ⟨a1, Nat.le_trans a2 (Nat.add_le_add_right (hgrow n') 1), a3⟩
   · by_cases hjn : j = n
     · subst hjn
       rw [hndn] at hr
       rcases List.mem_append.mp hr with hr | hr
       · exact b1.resOwn j hj hjc r hr
-      · rw [List.mem_singleton.mp hr]; exact hgv.name j
+      · rw [List.mem_singleton.mp hr]; exact Or.inl (hgv.name j)
     · rw [hndo j hjn] at hr; exact b1.resOwn j hj hjc r hr
   · by_cases hjn : j = n
     · subst hjn
       by_cases hres : (s1.nd j).results = []
       · left
-        refine ⟨w, s1.nextTag, trivial, ⟨.plain, dir, _, 0, by rw [hwdw]⟩, ?_⟩
+        refine ⟨w, s1.nextTag, trivial, ⟨.plain, dir, _, 0, by rw [hwdw], by decide⟩, ?_⟩
         rw [hndn, hres, hgv.name]; rfl
       · right
-        rcases b1.p1 j hj hjc hres with ⟨u, tag, hu, ⟨ph, dir', uid, wait, hpc⟩, _⟩ | ⟨u, hu, hidu, hf⟩
+        rcases b1.p1 j hj hjc hres with ⟨u, tag, hu, ⟨ph, dir', uid, wait, hpc, _⟩, _⟩ | ⟨u, hu, hidu, hf⟩
         · exfalso
           have hul : u < g.workers.length := by rw [← b1.workersLen]; exact lt_of_isTest s1 u (by rw [hpc]; rfl)
           exact hu (hc.uniq j hj hjc u w hul hw (b1.infl u hu j ph dir' uid tag wait hpc hjc).2.2.1 hid)
         · exact ⟨u, hu, hidu, hf.of_finished_eq hfin⟩
     · rw [hndo j hjn] at hne ⊢
-      rcases b1.p1 j hj hjc hne with ⟨u, tag, hu, ⟨ph, dir', uid, wait, hpc⟩, hres⟩ | ⟨u, hu, hidu, hf⟩
-      · exact Or.inl ⟨u, tag, trivial, ⟨ph, dir', uid, wait, by rw [hwdo u hu]; exact hpc⟩, hres⟩
+      rcases b1.p1 j hj hjc hne with ⟨u, tag, hu, ⟨ph, dir', uid, wait, hpc, hph⟩, hres⟩ | ⟨u, hu, hidu, hf⟩
+      · exact Or.inl ⟨u, tag, trivial, ⟨ph, dir', uid, wait, by rw [hwdo u hu]; exact hpc, hph⟩, hres⟩
       · exact Or.inr ⟨u, hu, hidu, hf.of_finished_eq hfin⟩
   · -- the budget
     have hlen : ((startTest gv s1 n w .plain dir).1.nd n).results.length = (s1.nd n).results.length + 1 := by
       rw [hndn]; simp
     rw [scopedLen_start hn hnc hlen (fun j hj => by rw [hndo j hj]) v]
-    have hb1 := b1.budget v hv
+    -- the creations in flight are those of the other workers
+    have hPw : ∀ u ∈ P, Ex w u ∧ InCre g s1 c sh v u := by
+      intro u hu
+      have huw : u ≠ w := by
+        intro e; subst e
+        obtain ⟨_, j, dir', uid, tag, wait, hpc, _⟩ := hPm u hu
+        rw [hwdw] at hpc; cases hpc
+      exact ⟨huw, (hPm u hu).2.of_wd_eq (hwdo u huw)⟩
+    have hb1 := b1.budget v hv P hP hPw
     have hlim1 : classLimit g s1 c ≤ classLimit g (startTest gv s1 n w .plain dir).1 c :=
       classLimit_mono g _ _ c (fun i => by rw [hbump]; exact Nat.le_refl _)
     by_cases hseen : seen g sh v n = true
     · simp only [hseen, if_true]
-      rcases hdecide with ⟨hnotfin, _⟩ | ⟨hcount, _⟩
-      · -- scan path: fewer marks in scope than the threshold
-        have hnf : ¬ FinIn g s1 c sh w := by
-          intro hf
-          have hflat : (gv.node n).flat = false := by rw [hgv.flat]; exact hnode.1
-          apply not_finIn_of_not_finished gv _ n w (by rw [hgv.len]; exact hn) hflat hnotfin
-          obtain ⟨j, u', h1, h2, h3, h4⟩ := hf
-          refine ⟨j, u', by rw [hgv.len]; exact h1, by rw [hgv.cls, hgv.cls, h2, hnc], ?_, ?_⟩
-          · rw [← hnd1 (·.finished) (fun _ => rfl) j]; exact h3
-          · rw [hgv.shape', hnode.2.2.2.2, ← (hgv.sameStatic).inScopeOf_eq] at *; exact h4
-        have h1 := scan_count hc hw hv b1 hn hnc hid hsto hnf hseen
-        have h2 := room_of_not_occupied gv s0 n w (by rw [hgv.flat]; exact hnode.1) hocc
-        rw [(hgv.sameStatic).scopedCount_eq, (hgv.sameStatic).limit_eq] at h2
-        have h3 := Nat.le_trans (limit_le_peakLimit g s0 n) (peakLimit_le_classLimit g s0 n hn)
-        rw [hnc] at h3
+      rcases hpath with ⟨hnf, hroom⟩ | ⟨hcount, hne1⟩
+      · have h1 := scan_count hc hw hv b1 hn hnc hid hsto hnf hseen P hP hPw
         omega
-      · -- rerun rule: the results in scope number less than `max_tries`
+      · have hM : 2 ≤ M.getD 1 := by omega
         have hvw : inScopeOf sh g v w = true := by rw [← hc.scope n hn hnc w v hw hv hid]; exact hseen
         have heq := scopedLen_scope_eq hc b1 v w hv hw hvw
-        have hcr : countedResults gv s1 n w = sharedFilteredResults g s1 n (some w) := by
-          unfold countedResults scopeWorker
-          rw [hsets, hstn]
-          simp only [Bool.false_eq_true, if_false]
-          exact sharedFilteredResults_sameNodes hgv s1 n _
-        rw [hcr, sfr_length g s1 c sh n w hn hnode.1 hnc hnode.2.2.2.2 b1.resOwn, hgv.maxTries, hnode.2.2.2.1] at hcount
+        rw [sfr_length g s1 c sh n w hn hnode.1 hnc hnode.2.2.2.2 (b1.noRoots_names hc hM)] at hcount
+        rw [b1.noRoots_P hc hM P hPw]
+        simp only [List.length_nil]
         omega
     · simp only [hseen, Bool.false_eq_true, if_false]
+      omega
+
+/-- … the same step at an object root: the creation pre-step starts on a copy of the results kept by the worker.
+No result is filed yet; the creation is counted as a result-to-be. -/
+theorem enter_start_pre {g gv : Graph} {c : Nat} {M : Option Int} {sh : Shape} (hc : BClass g c M sh) (hgv : SameNodes gv g)
+    {s0 s1 : State} {w n : Nat} {evs : List Event} (dir : Dir) (hw : w < g.workers.length)
+    (b0 : BInv g c M sh s0 (Ex w)) (hn : n < g.nodes.length) (hnc : (g.node n).cls = c) (hid : g.idIn w n = true)
+    (hroot : (g.node n).objectRoot = true) (hocc : isOccupied gv s0 n w = false)
+    (hdec : runDecision gv (pullLocations gv (s0.setNd n (fun d => { d with started := some w })) n) n w = .ok (true, s1, evs)) :
+    BInv g c M sh (startTest gv (s1.setWd w (fun d => { d with preResults := (s1.nd n).results, preName := preNameOf gv n w }))
+      n w .pre dir).1 All := by
+  have hnode := hc.node n hn hnc
+  obtain ⟨b1, hstn, hsto, hlim01, hpath⟩ := enter_prefix hc hgv hw b0 hn hnc hid hocc hdec
+  have hM : M.getD 1 ≤ 1 := by
+    rcases hnode.2.1 with h | h
+    · rw [hroot] at h; cases h
+    · exact h
+  have hws1 : w < s1.workers.length := by rw [b1.workersLen]; exact hw
+  -- the state after the start
+  generalize hF : (startTest gv (s1.setWd w (fun d => { d with preResults := (s1.nd n).results, preName := preNameOf gv n w }))
+      n w .pre dir).1 = F
+  rw [startTest_pre_fst] at hF
+  have hSw : (s1.setWd w (fun d => { d with preResults := (s1.nd n).results, preName := preNameOf gv n w })).wd w =
+      { s1.wd w with preResults := (s1.nd n).results, preName := preNameOf gv n w } := wd_setWd_eq s1 w _ hws1
+  have hSo : ∀ v, v ≠ w →
+      (s1.setWd w (fun d => { d with preResults := (s1.nd n).results, preName := preNameOf gv n w })).wd v = s1.wd v :=
+    fun v hv => wd_setWd_ne s1 w v _ hv
+  have hSl : (s1.setWd w (fun d => { d with preResults := (s1.nd n).results, preName := preNameOf gv n w })).workers.length =
+      s1.workers.length := workers_length_setWd _ _ _
+  have hSn : ∀ j, (s1.setWd w (fun d => { d with preResults := (s1.nd n).results, preName := preNameOf gv n w })).nd j =
+      s1.nd j := fun _ => rfl
+  have hSt : (s1.setWd w (fun d => { d with preResults := (s1.nd n).results, preName := preNameOf gv n w })).nextTag =
+      s1.nextTag := rfl
+  have hSnl : (s1.setWd w (fun d => { d with preResults := (s1.nd n).results, preName := preNameOf gv n w })).nodes.length =
+      s1.nodes.length := rfl
+  generalize s1.setWd w (fun d => { d with preResults := (s1.nd n).results, preName := preNameOf gv n w }) = S
+    at hF hSw hSo hSl hSn hSt hSnl
+  have hnd : ∀ j, F.nd j = s1.nd j := fun j => by rw [← hF, nd_setWd]; exact hSn j
+  have hwdo : ∀ v, v ≠ w → F.wd v = s1.wd v := by
+    intro v hv
+    rw [← hF, wd_setWd_ne _ w v _ hv]
+    exact hSo v hv
+  have hwdw : (F.wd w).pc = .test n .pre dir (uidOf "0" (S.wd w).preResults.length) s1.nextTag 0 ∧
+      (F.wd w).preResults = (s1.nd n).results ++ [phOf (preNameOf gv n w) s1.nextTag] ∧ (F.wd w).path = (s1.wd w).path := by
+    rw [← hF]
+    have hl : w < ({ S with nextTag := S.nextTag + 1 } : State).workers.length := by
+      show w < S.workers.length
+      rw [hSl]; exact hws1
+    rw [wd_setWd_eq _ w _ hl]
+    refine ⟨by rw [hSt], ?_, ?_⟩
+    · show (S.wd w).preResults ++ [phOf (S.wd w).preName S.nextTag] = _
+      rw [hSw, hSt]
+    · show (S.wd w).path = _
+      rw [hSw]
+  obtain ⟨hpcw, hprw, hpaw⟩ := hwdw
+  have hfin : ∀ u, FinIn g s1 c sh u → FinIn g F c sh u := fun u hf => hf.of_finished_eq (fun j => by rw [hnd])
+  -- on the scan path the root has no result yet
+  have hscan : ¬ FinIn g s1 c sh w ∧ scopedCount g s0 n w < classLimit g s0 c := by
+    rcases hpath with h | ⟨h1, h2⟩
+    · exact h
+    · exfalso; omega
+  have hres0 : (s1.nd n).results = [] := by
+    apply Classical.byContradiction
+    intro hne
+    rcases b1.p1 n hn hnc hne with ⟨u, tag, hu, ⟨ph, dir', uid, wait, hpc, _⟩, _⟩ | ⟨u, hu, hidu, hf⟩
+    · have hul : u < g.workers.length := by rw [← b1.workersLen]; exact lt_of_isTest s1 u (by rw [hpc]; rfl)
+      exact hu (hc.uniq n hn hnc u w hul hw (b1.infl u hu n ph dir' uid tag wait hpc hnc).2.2.1 hid)
+    · rw [hc.uniq n hn hnc u w hu hw hidu hid] at hf
+      exact hscan.1 hf
+  refine ⟨?_, ?_, fun v => ?_, fun j u hj hjc h => ?_, fun u _ n' ph dir' uid tag wait hpc hn' => ?_,
+    fun j hj hjc r hr => ?_, fun j hj hjc hne => ?_, fun v hv P hP hPm => ?_⟩
+  · rw [← hF]; show S.nodes.length = _; rw [hSnl]; exact b1.nodesLen
+  · rw [← hF, workers_length_setWd]; show S.workers.length = _; rw [hSl]; exact b1.workersLen
+  · unfold PathC
+    by_cases hvw : v = w
+    · subst hvw; rw [hpaw]; exact b1.path v
+    · rw [hwdo v hvw]; exact b1.path v
+  · rw [hnd] at h; exact b1.finOwn j u hj hjc h
+  · by_cases huw : u = w
+    · subst huw
+      rw [hpcw] at hpc
+      cases hpc
+      refine ⟨hn, fun _ => ⟨hroot, ?_, ?_⟩, hid, by rw [hnd]; exact hstn⟩
+      · rw [hprw, hnd]; simp
+      · intro r hr
+        rw [hprw] at hr
+        rcases List.mem_append.mp hr with hr | hr
+        · exact b1.resOwn n hn hnc r hr
+        · rw [List.mem_singleton.mp hr]
+          right
+          refine ⟨hroot, fun v hv hin => ?_⟩
+          have hin' : strIn (scopeFilter g sh v) (preNameOf g n u) = true := by
+            rw [← preNameOf_sameNodes hgv]; exact hin
+          exact hc.preScope n hn hnc hroot u v hw hv hid hin'
+    · rw [hwdo u huw] at hpc ⊢
+      rw [hnd]
+      exact b1.infl u huw n' ph dir' uid tag wait hpc hn'
+  · rw [hnd] at hr; exact b1.resOwn j hj hjc r hr
+  · rw [hnd] at hne ⊢
+    rcases b1.p1 j hj hjc hne with ⟨u, tag, hu, ⟨ph, dir', uid, wait, hpc, hph⟩, hres⟩ | ⟨u, hu, hidu, hf⟩
+    · exact Or.inl ⟨u, tag, trivial, ⟨ph, dir', uid, wait, by rw [hwdo u hu]; exact hpc, hph⟩, hres⟩
+    · exact Or.inr ⟨u, hu, hidu, hfin u hf⟩
+  · -- the budget: the new creation is one more result-to-be
+    have hsl : scopedLen g F c sh v = scopedLen g s1 c sh v := scopedLen_congr g s1 F c sh v (fun m _ => by rw [hnd])
+    have hlim1 : classLimit g s1 c ≤ classLimit g F c := classLimit_mono g _ _ c (fun i => by rw [hnd]; exact Nat.le_refl _)
+    rw [hsl]
+    have hPe : ∀ u ∈ P.erase w, Ex w u ∧ InCre g s1 c sh v u := by
+      intro u hu
+      have huw : u ≠ w := ((List.Nodup.mem_erase_iff hP).mp hu).1
+      have hup : u ∈ P := List.mem_of_mem_erase hu
+      exact ⟨huw, (hPm u hup).2.of_wd_eq (hwdo u huw)⟩
+    have hPn : (P.erase w).Nodup := hP.erase w
+    by_cases hwP : w ∈ P
+    · have hlen : (P.erase w).length + 1 = P.length := by
+        rw [List.length_erase_of_mem hwP]
+        have := List.length_pos_of_mem hwP
+        omega
+      have hseen : seen g sh v n = true := by
+        obtain ⟨_, j, dir', uid, tag, wait, hpc, _, hs⟩ := hPm w hwP
+        rw [hpcw] at hpc; cases hpc; exact hs
+      have h1 := scan_count hc hw hv b1 hn hnc hid hsto hscan.1 hseen (P.erase w) hPn hPe
+      omega
+    · have hb1 := b1.budget v hv P hP (fun u hu => by
+        have huw : u ≠ w := fun e => hwP (e ▸ hu)
+        exact ⟨huw, (hPm u hu).2.of_wd_eq (hwdo u huw)⟩)
       omega
 
 /-! ## the walk through the loop -/
@@ -869,13 +1161,13 @@ theorem traverseNode_b {g gv : Graph} {c : Nat} {M : Option Int} {sh : Shape} (h
         simp only [if_true]
         by_cases hroot : (gv.node next).objectRoot = true
         · simp only [hroot, if_true]
-          have hne : (g.node next).cls ≠ c := by
-            intro hcls
-            rw [hgv.objectRoot, (hc.node next hnext hcls).2.1] at hroot
-            cases hroot
+          by_cases hcls : (g.node next).cls = c
+          · right
+            exact ⟨enter_start_pre hc hgv dir hw b hnext hcls (hrel hcls) (by rw [← hgv.objectRoot]; exact hroot) hocc' hd,
+              by simp only [startTest_flow]⟩
           left
           show Fr g c w s (startTest gv _ next w .pre dir).1
-          refine h1.trans (Fr.trans ?_ (fr_startOther g c w gv _ next .pre dir hne))
+          refine h1.trans (Fr.trans ?_ (fr_startOther g c w gv _ next .pre dir hcls))
           apply fr_setWd
           · exact fun _ h => h
           · exact fun _ h => h
@@ -980,7 +1272,11 @@ theorem BInv.close {g : Graph} {c w : Nat} {M : Option Int} {sh : Shape} {s : St
     rcases b.p1 j hj hjc hne with ⟨u, tag, _, hpc, hres⟩ | h'
     · exact Or.inl ⟨u, tag, trivial, hpc, hres⟩
     · exact Or.inr h'
-  budget := b.budget
+  budget := fun v hv P hP hPm => b.budget v hv P hP (fun u hu => by
+    refine ⟨?_, (hPm u hu).2⟩
+    intro e; subst e
+    obtain ⟨j, dir, uid, tag, wait, hpc, hjc, _⟩ := (hPm u hu).2
+    exact h j .pre dir uid tag wait hpc hjc)
 
 theorem BInv.open {g : Graph} {c : Nat} {M : Option Int} {sh : Shape} {s : State} (b : BInv g c M sh s All) (w : Nat)
     (h : NotInC g c (s.wd w).pc) : BInv g c M sh s (Ex w) where
@@ -991,12 +1287,12 @@ theorem BInv.open {g : Graph} {c : Nat} {M : Option Int} {sh : Shape} {s : State
   infl := fun u _ n ph dir uid tag wait hpc hn => b.infl u trivial n ph dir uid tag wait hpc hn
   resOwn := b.resOwn
   p1 := fun j hj hjc hne => by
-    rcases b.p1 j hj hjc hne with ⟨u, tag, _, ⟨ph, dir, uid, wait, hpc⟩, hres⟩ | h'
-    · refine Or.inl ⟨u, tag, ?_, ⟨ph, dir, uid, wait, hpc⟩, hres⟩
+    rcases b.p1 j hj hjc hne with ⟨u, tag, _, ⟨ph, dir, uid, wait, hpc, hph⟩, hres⟩ | h'
+    · refine Or.inl ⟨u, tag, ?_, ⟨ph, dir, uid, wait, hpc, hph⟩, hres⟩
       intro hu; subst hu
       exact h j ph dir uid tag wait hpc hjc
     · exact Or.inr h'
-  budget := b.budget
+  budget := fun v hv P hP hPm => b.budget v hv P hP (fun u hu => ⟨trivial, (hPm u hu).2⟩)
 
 theorem notInC_of_nonTest {g : Graph} {c : Nat} {pc : Pc} (h : pc.isTest = false) : NotInC g c pc := by
   intro n ph dir uid tag wait e
@@ -1054,17 +1350,17 @@ theorem BInv.quiet {g : Graph} {c : Nat} {M : Option Int} {sh : Shape} {s s' : S
   have hwd := wd_of_workers_eq hw
   have hfin : ∀ u, FinIn g s c sh u → FinIn g s' c sh u := fun u hf => hf.of_finished_eq (fun j => by rw [hnd])
   refine ⟨by rw [hn]; exact b.nodesLen, by rw [hw]; exact b.workersLen, fun v => ?_, fun j u hj hjc h => ?_,
-    fun u hu n ph dir uid tag wait hpc hnc => ?_, fun j hj hjc r hr => ?_, fun j hj hjc hne => ?_, fun v hv => ?_⟩
+    fun u hu n ph dir uid tag wait hpc hnc => ?_, fun j hj hjc r hr => ?_, fun j hj hjc hne => ?_, fun v hv P hP hPm => ?_⟩
   · unfold PathC; rw [hwd]; exact b.path v
   · rw [hnd] at h; exact b.finOwn j u hj hjc h
-  · rw [hwd] at hpc; rw [hnd]; exact b.infl u hu n ph dir uid tag wait hpc hnc
+  · rw [hwd] at hpc ⊢; rw [hnd]; exact b.infl u hu n ph dir uid tag wait hpc hnc
   · rw [hnd] at hr; exact b.resOwn j hj hjc r hr
   · rw [hnd] at hne ⊢
-    rcases b.p1 j hj hjc hne with ⟨u, tag, hu, ⟨ph, dir, uid, wait, hpc⟩, hres⟩ | ⟨u, hu, hid, hf⟩
-    · exact Or.inl ⟨u, tag, hu, ⟨ph, dir, uid, wait, by rw [hwd]; exact hpc⟩, hres⟩
+    rcases b.p1 j hj hjc hne with ⟨u, tag, hu, ⟨ph, dir, uid, wait, hpc, hph⟩, hres⟩ | ⟨u, hu, hid, hf⟩
+    · exact Or.inl ⟨u, tag, hu, ⟨ph, dir, uid, wait, by rw [hwd]; exact hpc, hph⟩, hres⟩
     · exact Or.inr ⟨u, hu, hid, hfin u hf⟩
   · rw [scopedLen_congr g s s' c sh v (fun m _ => by rw [hnd])]
-    have := b.budget v hv
+    have := b.budget v hv P hP (fun u hu => ⟨(hPm u hu).1, (hPm u hu).2.of_wd_eq (hwd u)⟩)
     have h2 := classLimit_mono g s s' c (fun i => by rw [hnd]; exact Nat.le_refl _)
     omega
 
@@ -1080,38 +1376,50 @@ theorem BInv.rewait {g : Graph} {c : Nat} {M : Option Int} {sh : Shape} {s : Sta
     fun u hf => hf.of_finished_eq (fun j => rfl)
   refine ⟨b.nodesLen, by rw [workers_length_setWd]; exact b.workersLen, fun v => ?_, fun j u hj hjc h => b.finOwn j u hj hjc h,
     fun u _ n' ph' dir' uid' tag' wt hpc' hnc => ?_, fun j hj hjc r hr => b.resOwn j hj hjc r hr, fun j hj hjc hne => ?_,
-    fun v hv => ?_⟩
+    fun v hv P hP hPm => ?_⟩
   · unfold PathC
     by_cases hv : v = w
     · subst hv; rw [hww]; exact b.path v
     · rw [hwo v hv]; exact b.path v
   · by_cases hu : u = w
     · subst hu
-      rw [hww] at hpc'
+      rw [hww] at hpc' ⊢
       cases hpc'
       exact b.infl u trivial _ _ _ _ _ _ hpc hnc
-    · rw [hwo u hu] at hpc'
+    · rw [hwo u hu] at hpc' ⊢
       exact b.infl u trivial n' ph' dir' uid' tag' wt hpc' hnc
-  · rcases b.p1 j hj hjc hne with ⟨u, tg, _, ⟨ph', dir', uid', wt, hpc'⟩, hres⟩ | ⟨u, hu, hid, hf⟩
+  · rcases b.p1 j hj hjc hne with ⟨u, tg, _, ⟨ph', dir', uid', wt, hpc', hph'⟩, hres⟩ | ⟨u, hu, hid, hf⟩
     · left
       by_cases hu : u = w
       · subst hu
         rw [hpc] at hpc'
         cases hpc'
-        exact ⟨u, _, trivial, ⟨_, _, _, wait', by rw [hww]⟩, hres⟩
-      · exact ⟨u, tg, trivial, ⟨ph', dir', uid', wt, by rw [hwo u hu]; exact hpc'⟩, hres⟩
+        exact ⟨u, _, trivial, ⟨_, _, _, wait', by rw [hww], hph'⟩, hres⟩
+      · exact ⟨u, tg, trivial, ⟨ph', dir', uid', wt, by rw [hwo u hu]; exact hpc', hph'⟩, hres⟩
     · exact Or.inr ⟨u, hu, hid, hfin u hf⟩
-  · exact b.budget v hv
+  · refine b.budget v hv P hP (fun u hu => ⟨trivial, ?_⟩)
+    obtain ⟨j, dir', uid', tag', wt, hpc', hjc, hs⟩ := (hPm u hu).2
+    by_cases huw : u = w
+    · subst huw
+      rw [hww] at hpc'
+      cases hpc'
+      exact ⟨_, _, _, _, wait, hpc, hjc, hs⟩
+    · rw [hwo u huw] at hpc'
+      exact ⟨j, dir', uid', tag', wt, hpc', hjc, hs⟩
 
-/-- The end of an execution of a copy of the class: the result list of the copy has not grown, and the copy gets the
-`finished` mark of its worker.  From here on the worker's scope is past the scan path. -/
+/-- The end of an execution of a copy of the class (test proper, or a failed creation pre-step): the result list of
+the copy has not grown (test proper: the placeholder is replaced) or has grown by what the creation in flight stood for
+(failed pre-step), and the copy gets the `finished` mark of its worker.  From here on the worker's scope is past the
+scan path. -/
 theorem finish_b {g : Graph} {c : Nat} {M : Option Int} {sh : Shape} (hc : BClass g c M sh) {s sc : State} {w n : Nat}
     {ph : Phase} {dir : Dir} {uid : String} {tag wait : Nat} (hw : w < g.workers.length) (b : BInv g c M sh s All)
     (hpc : (s.wd w).pc = .test n ph dir uid tag wait) (hnc : (g.node n).cls = c)
-    (hwk : sc.workers = s.workers) (hnl : sc.nodes.length = s.nodes.length) (ho : ∀ j, j ≠ n → sc.nd j = s.nd j)
+    (hwl : sc.workers.length = s.workers.length) (hwo : ∀ v, v ≠ w → sc.wd v = s.wd v)
+    (hpa : (sc.wd w).path = (s.wd w).path)
+    (hnl : sc.nodes.length = s.nodes.length) (ho : ∀ j, j ≠ n → sc.nd j = s.nd j)
     (hfi : (sc.nd n).finished = (s.nd n).finished) (hbu : (sc.nd n).bump = (s.nd n).bump)
-    (hlen : (sc.nd n).results.length ≤ (s.nd n).results.length)
-    (hname : ∀ r ∈ (sc.nd n).results, r.name = (g.node n).name) :
+    (hlen : (sc.nd n).results.length ≤ (s.nd n).results.length + (if ph = .pre then 1 else 0))
+    (hname : ∀ r ∈ (sc.nd n).results, NameOK g sh n r.name) :
     BInv g c M sh (finishTraverse sc n w) (Ex w) := by
   obtain ⟨hn, _, hid, _⟩ := b.infl w trivial n ph dir uid tag wait hpc hnc
   have hnsc : n < sc.nodes.length := by rw [hnl, b.nodesLen]; exact hn
@@ -1121,7 +1429,7 @@ theorem finish_b {g : Graph} {c : Nat} {M : Option Int} {sh : Shape} (hc : BClas
     intro j hj
     unfold finishTraverse
     rw [nd_setNd_ne sc n j _ hj, ho j hj]
-  have hwd : ∀ v, (finishTraverse sc n w).wd v = s.wd v := fun v => wd_of_workers_eq hwk v
+  have hwd : ∀ v, v ≠ w → (finishTraverse sc n w).wd v = s.wd v := fun v hv => hwo v hv
   have hfin : ∀ u, FinIn g s c sh u → FinIn g (finishTraverse sc n w) c sh u := by
     rintro u ⟨j, u', h1, h2, h3, h4⟩
     refine ⟨j, u', h1, h2, ?_, h4⟩
@@ -1130,23 +1438,35 @@ theorem finish_b {g : Graph} {c : Nat} {M : Option Int} {sh : Shape} (hc : BClas
       obtain ⟨hu', hidu'⟩ := b.finOwn j u' h1 h2 h3
       rw [hndn, hc.uniq j h1 h2 u' w hu' hw hidu' hid]
     · rw [hndo j hj]; exact h3
-  refine ⟨?_, by rw [← b.workersLen, ← hwk]; rfl, fun v => ?_, fun j u hj hjc h => ?_,
-    fun u hu n' ph' dir' uid' tag' wt hpc' hnc' => ?_, fun j hj hjc r hr => ?_, fun j hj hjc hne => ?_, fun v hv => ?_⟩
+  -- another worker in flight is on another copy
+  have hother : ∀ u, u ≠ w → ∀ n' ph' dir' uid' tag' wt, (s.wd u).pc = .test n' ph' dir' uid' tag' wt →
+      (g.node n').cls = c → n' ≠ n := by
+    intro u hu n' ph' dir' uid' tag' wt hpc' hnc' e
+    subst e
+    obtain ⟨h1, _, h3, _⟩ := b.infl u trivial n' ph' dir' uid' tag' wt hpc' hnc'
+    have hul : u < g.workers.length := by rw [← b.workersLen]; exact lt_of_isTest s u (by rw [hpc']; rfl)
+    exact hu (hc.uniq n' h1 hnc' u w hul hw h3 hid)
+  refine ⟨?_, by rw [← b.workersLen, ← hwl]; rfl, fun v => ?_, fun j u hj hjc h => ?_,
+    fun u hu n' ph' dir' uid' tag' wt hpc' hnc' => ?_, fun j hj hjc r hr => ?_, fun j hj hjc hne => ?_,
+    fun v hv P hP hPm => ?_⟩
   · unfold finishTraverse; rw [nodes_length_setNd, hnl]; exact b.nodesLen
-  · unfold PathC; rw [hwd]; exact b.path v
+  · unfold PathC
+    by_cases hv : v = w
+    · subst hv
+      show ∀ x ∈ (sc.wd v).path, _
+      rw [hpa]; exact b.path v
+    · rw [hwd v hv]; exact b.path v
   · by_cases hjn : j = n
     · subst hjn
       rw [hndn] at h
       cases h
       exact ⟨hw, hid⟩
     · rw [hndo j hjn] at h; exact b.finOwn j u hj hjc h
-  · rw [hwd] at hpc'
+  · rw [hwd u hu] at hpc' ⊢
     obtain ⟨h1, h2, h3, h4⟩ := b.infl u trivial n' ph' dir' uid' tag' wt hpc' hnc'
-    have hul : u < g.workers.length := by rw [← b.workersLen]; exact lt_of_isTest s u (by rw [hpc']; rfl)
-    have hn' : n' ≠ n := by
-      intro e; subst e
-      exact hu (hc.uniq n' h1 hnc' u w hul hw h3 hid)
-    exact ⟨h1, h2, h3, by rw [hndo n' hn']; exact h4⟩
+    have hn' : n' ≠ n := hother u hu n' ph' dir' uid' tag' wt hpc' hnc'
+    rw [hndo n' hn']
+    exact ⟨h1, h2, h3, h4⟩
   · by_cases hjn : j = n
     · subst hjn
       rw [hndn] at hr
@@ -1156,32 +1476,178 @@ theorem finish_b {g : Graph} {c : Nat} {M : Option Int} {sh : Shape} (hc : BClas
     · subst hjn
       exact Or.inr ⟨w, hw, hid, j, w, hj, hjc, by rw [hndn], inScopeOf_self sh g w⟩
     · rw [hndo j hjn] at hne ⊢
-      rcases b.p1 j hj hjc hne with ⟨u, tg, _, ⟨ph', dir', uid', wt, hpc'⟩, hres⟩ | ⟨u, hu, hidu, hf⟩
-      · refine Or.inl ⟨u, tg, ?_, ⟨ph', dir', uid', wt, by rw [hwd]; exact hpc'⟩, hres⟩
-        intro hu; subst hu
-        rw [hpc] at hpc'
-        cases hpc'
-        exact hjn rfl
+      rcases b.p1 j hj hjc hne with ⟨u, tg, _, ⟨ph', dir', uid', wt, hpc', hph'⟩, hres⟩ | ⟨u, hu, hidu, hf⟩
+      · have huw : u ≠ w := by
+          intro hu; subst hu
+          rw [hpc] at hpc'
+          cases hpc'
+          exact hjn rfl
+        exact Or.inl ⟨u, tg, huw, ⟨ph', dir', uid', wt, by rw [hwd u huw]; exact hpc', hph'⟩, hres⟩
       · exact Or.inr ⟨u, hu, hidu, hfin u hf⟩
-  · have h1 : scopedLen g (finishTraverse sc n w) c sh v ≤ scopedLen g s c sh v := by
-      unfold scopedLen
-      apply sum_map_le
-      intro j _
-      by_cases hjn : j = n
-      · subst hjn
-        rw [hndn]
-        split
-        · exact hlen
-        · exact Nat.le_refl _
-      · rw [hndo j hjn]; exact Nat.le_refl _
-    have h2 : classLimit g s c ≤ classLimit g (finishTraverse sc n w) c := by
+  · have h2 : classLimit g s c ≤ classLimit g (finishTraverse sc n w) c := by
       apply classLimit_mono
       intro j
       by_cases hjn : j = n
       · subst hjn; rw [hndn]; show (s.nd j).bump ≤ (sc.nd j).bump; rw [hbu]; exact Nat.le_refl _
       · rw [hndo j hjn]; exact Nat.le_refl _
-    have := b.budget v hv
-    omega
+    have hPs : ∀ u ∈ P, All u ∧ InCre g s c sh v u :=
+      fun u hu => ⟨trivial, (hPm u hu).2.of_wd_eq (hwd u (hPm u hu).1)⟩
+    by_cases hcre : ph = .pre ∧ seen g sh v n = true
+    · -- the creation in flight that failed was counted as a result-to-be
+      obtain ⟨hph, hseen⟩ := hcre
+      subst hph
+      have h1 : scopedLen g (finishTraverse sc n w) c sh v ≤ scopedLen g s c sh v + 1 := by
+        unfold scopedLen
+        apply sum_map_le_add _ (nodup_classNodes g c) n
+        · rw [hndn]
+          simp only [hseen, if_true] at hlen ⊢
+          exact hlen
+        · intro j _ hjn
+          rw [hndo j hjn]; exact Nat.le_refl _
+      have hwP : w ∉ P := fun h => (hPm w h).1 rfl
+      have := b.budget v hv (w :: P) (List.nodup_cons.mpr ⟨hwP, hP⟩) (fun u hu => by
+        rcases List.mem_cons.mp hu with e | hu
+        · rw [e]; exact ⟨trivial, n, dir, uid, tag, wait, hpc, hnc, hseen⟩
+        · exact hPs u hu)
+      simp only [List.length_cons] at this
+      omega
+    · have h1 : scopedLen g (finishTraverse sc n w) c sh v ≤ scopedLen g s c sh v := by
+        unfold scopedLen
+        apply sum_map_le
+        intro j _
+        by_cases hjn : j = n
+        · subst hjn
+          rw [hndn]
+          by_cases hseen : seen g sh v j = true
+          · simp only [hseen, if_true]
+            have : ¬ ph = .pre := fun h => hcre ⟨h, hseen⟩
+            simp only [this, if_false, Nat.add_zero] at hlen
+            exact hlen
+          · simp only [hseen, Bool.false_eq_true, if_false]; exact Nat.le_refl _
+        · rw [hndo j hjn]; exact Nat.le_refl _
+      have := b.budget v hv P hP hPs
+      omega
+
+/-- A successful creation pre-step: the test proper starts at once on the object root, without a decision; the creation
+in flight turns into the placeholder it stood for. -/
+theorem main_start_b {g : Graph} {c : Nat} {M : Option Int} {sh : Shape} (hc : BClass g c M sh) {s sc : State} {w n : Nat}
+    {dir : Dir} {uid : String} {tag wait : Nat} (hw : w < g.workers.length) (b : BInv g c M sh s All)
+    (hpc : (s.wd w).pc = .test n .pre dir uid tag wait) (hnc : (g.node n).cls = c)
+    (hwl : sc.workers.length = s.workers.length) (hwo : ∀ v, v ≠ w → sc.wd v = s.wd v)
+    (hpa : (sc.wd w).path = (s.wd w).path) (hnodes : sc.nodes = s.nodes) :
+    BInv g c M sh (startTest g sc n w .main dir).1 All := by
+  obtain ⟨hn, _, hid, hstn⟩ := b.infl w trivial n .pre dir uid tag wait hpc hnc
+  have hscnd : ∀ j, sc.nd j = s.nd j := nd_of_nodes_eq' hnodes
+  have hnsc : n < sc.nodes.length := by rw [hnodes, b.nodesLen]; exact hn
+  have hwsc : w < sc.workers.length := by rw [hwl, b.workersLen]; exact hw
+  have hfst := startTest_nonpre_fst g sc n w .main dir (by decide)
+  have hndn : ((startTest g sc n w .main dir).1.nd n) =
+      { s.nd n with results := (s.nd n).results ++ [phOf (g.node n).name sc.nextTag] } := by
+    rw [hfst, nd_setWd, nd_setNd_eq ({ sc with nextTag := sc.nextTag + 1 }) n _ hnsc]
+    have : ({ sc with nextTag := sc.nextTag + 1 } : State).nd n = s.nd n := hscnd n
+    rw [this]
+  have hndo : ∀ j, j ≠ n → (startTest g sc n w .main dir).1.nd j = s.nd j := by
+    intro j hj
+    rw [hfst, nd_setWd, nd_setNd_ne ({ sc with nextTag := sc.nextTag + 1 }) n j _ hj]
+    exact hscnd j
+  have hwdo : ∀ v, v ≠ w → (startTest g sc n w .main dir).1.wd v = s.wd v :=
+    fun v hv => (startTest_wd_ne g sc n w .main dir v hv).trans (hwo v hv)
+  have hwdw : ((startTest g sc n w .main dir).1.wd w) =
+      { sc.wd w with pc := .test n .main dir (uidOf (g.node n).pfx (sharedResults g sc n).length) sc.nextTag 0 } := by
+    rw [hfst]
+    exact wd_setWd_eq _ w _ (by exact hwsc)
+  have hproj : ∀ {α} (P : NodeD → α), (∀ d r, P { d with results := r } = P d) → ∀ j,
+      P ((startTest g sc n w .main dir).1.nd j) = P (s.nd j) := by
+    intro α P hP j
+    by_cases hj : j = n
+    · subst hj; rw [hndn]; exact hP _ _
+    · rw [hndo j hj]
+  have hfin : ∀ j, ((startTest g sc n w .main dir).1.nd j).finished = (s.nd j).finished :=
+    hproj (·.finished) (fun _ _ => rfl)
+  have hbump : ∀ j, ((startTest g sc n w .main dir).1.nd j).bump = (s.nd j).bump := hproj (·.bump) (fun _ _ => rfl)
+  have hsta : ∀ j, ((startTest g sc n w .main dir).1.nd j).started = (s.nd j).started :=
+    hproj (·.started) (fun _ _ => rfl)
+  have hgrow : ∀ j, (s.nd j).results.length ≤ ((startTest g sc n w .main dir).1.nd j).results.length := by
+    intro j
+    by_cases hj : j = n
+    · subst hj; rw [hndn]; simp
+    · rw [hndo j hj]; exact Nat.le_refl _
+  refine ⟨?_, ?_, fun v => ?_, fun j u hj hjc h => ?_, fun u _ n' ph dir' uid' tag' wt hpc' hn' => ?_,
+    fun j hj hjc r hr => ?_, fun j hj hjc hne => ?_, fun v hv P hP hPm => ?_⟩
+  · rw [hfst]; simp only [State.setWd, State.setNd, List.length_modify]; rw [hnodes]; exact b.nodesLen
+  · rw [hfst]; simp only [State.setWd, State.setNd, List.length_modify]; rw [hwl]; exact b.workersLen
+  · unfold PathC
+    by_cases hvw : v = w
+    · subst hvw; rw [hwdw]; show ∀ x ∈ (sc.wd v).path, _; rw [hpa]; exact b.path v
+    · rw [hwdo v hvw]; exact b.path v
+  · rw [hfin] at h; exact b.finOwn j u hj hjc h
+  · by_cases huw : u = w
+    · subst huw
+      rw [hwdw] at hpc'
+      cases hpc'
+      exact ⟨hn, (fun h => by cases h), hid, by rw [hsta]; exact hstn⟩
+    · rw [hwdo u huw] at hpc' ⊢
+      obtain ⟨h1, h2, h3, h4⟩ := b.infl u trivial n' ph dir' uid' tag' wt hpc' hn'
+      refine ⟨h1, fun hp => ?_, h3, by rw [hsta]; exact h4⟩
+      obtain ⟨a1, a2, a3⟩ := h2 hp
+      exact ⟨a1, Nat.le_trans a2 (Nat.add_le_add_right (hgrow n') 1), a3⟩
+  · by_cases hjn : j = n
+    · subst hjn
+      rw [hndn] at hr
+      rcases List.mem_append.mp hr with hr | hr
+      · exact b.resOwn j hj hjc r hr
+      · rw [List.mem_singleton.mp hr]; exact Or.inl rfl
+    · rw [hndo j hjn] at hr; exact b.resOwn j hj hjc r hr
+  · by_cases hjn : j = n
+    · subst hjn
+      by_cases hres : (s.nd j).results = []
+      · left
+        refine ⟨w, sc.nextTag, trivial, ⟨.main, dir, _, 0, by rw [hwdw], by decide⟩, ?_⟩
+        rw [hndn, hres]; rfl
+      · right
+        rcases b.p1 j hj hjc hres with ⟨u, tg, _, ⟨ph, dir', uid', wt, hpc', hph⟩, _⟩ | ⟨u, hu, hidu, hf⟩
+        · exfalso
+          have hul : u < g.workers.length := by rw [← b.workersLen]; exact lt_of_isTest s u (by rw [hpc']; rfl)
+          have := hc.uniq j hj hjc u w hul hw (b.infl u trivial j ph dir' uid' tg wt hpc' hjc).2.2.1 hid
+          subst this
+          rw [hpc] at hpc'
+          cases hpc'
+          exact hph rfl
+        · exact ⟨u, hu, hidu, hf.of_finished_eq hfin⟩
+    · rw [hndo j hjn] at hne ⊢
+      rcases b.p1 j hj hjc hne with ⟨u, tg, _, ⟨ph, dir', uid', wt, hpc', hph⟩, hres⟩ | ⟨u, hu, hidu, hf⟩
+      · have huw : u ≠ w := by
+          intro e; subst e
+          rw [hpc] at hpc'
+          cases hpc'
+          exact hph rfl
+        exact Or.inl ⟨u, tg, trivial, ⟨ph, dir', uid', wt, by rw [hwdo u huw]; exact hpc', hph⟩, hres⟩
+      · exact Or.inr ⟨u, hu, hidu, hf.of_finished_eq hfin⟩
+  · -- the budget: one creation in flight less, one placeholder more
+    have hlen : ((startTest g sc n w .main dir).1.nd n).results.length = (s.nd n).results.length + 1 := by
+      rw [hndn]; simp
+    rw [scopedLen_start hn hnc hlen (fun j hj => by rw [hndo j hj]) v]
+    have hwP : w ∉ P := by
+      intro h
+      obtain ⟨_, j, dir', uid', tag', wt, hpc', _⟩ := hPm w h
+      rw [hwdw] at hpc'; cases hpc'
+    have hPs : ∀ u ∈ P, All u ∧ InCre g s c sh v u := by
+      intro u hu
+      have huw : u ≠ w := fun e => hwP (e ▸ hu)
+      exact ⟨trivial, (hPm u hu).2.of_wd_eq (hwdo u huw)⟩
+    have hlim1 : classLimit g s c ≤ classLimit g (startTest g sc n w .main dir).1 c :=
+      classLimit_mono g _ _ c (fun i => by rw [hbump]; exact Nat.le_refl _)
+    by_cases hseen : seen g sh v n = true
+    · simp only [hseen, if_true]
+      have := b.budget v hv (w :: P) (List.nodup_cons.mpr ⟨hwP, hP⟩) (fun u hu => by
+        rcases List.mem_cons.mp hu with e | hu
+        · rw [e]; exact ⟨trivial, n, dir, uid, tag, wait, hpc, hnc, hseen⟩
+        · exact hPs u hu)
+      simp only [List.length_cons] at this
+      omega
+    · simp only [hseen, Bool.false_eq_true, if_false]
+      have := b.budget v hv P hP hPs
+      omega
 
 theorem reportOutcome_same (g : Graph) (s : State) (w n : Nat) (phase : Phase) (uid : String) (wait : Nat) (out : Outcome) :
     (reportOutcome g s w n phase uid wait out).1.nodes = s.nodes ∧ (reportOutcome g s w n phase uid wait out).1.workers = s.workers := by
@@ -1227,13 +1693,63 @@ theorem fr_recordResult_other (g : Graph) (c : Nat) (s : State) (w n : Nat) (pha
     exact (hX _ _).trans (fr_setNd g c w _ n _ (fun h => absurd h hne) (fun _ => Nat.le_refl _) (fun h => absurd h hne)
       (fun h => absurd h hne))
 
+/-- filing the result of a creation pre-step: job records aside, the placeholder on the worker's copy is replaced -/
+theorem recordResult_pre (s : State) (w n : Nat) (name uid : String) (tag : Nat) (st0 : String) (dur : Nat) :
+    ∃ (sJ : State) (st : String), sJ.nodes = s.nodes ∧ sJ.workers = s.workers ∧
+      (recordResult s w n .pre name uid tag st0 dur).1 = sJ.setWd w (fun d => { d with
+        preResults := (d.preResults ++ [({ name := name, status := st, uid := uid, dur := dur } : Result)]).filter
+          (fun r => !(r.status == "UNKNOWN" && r.tag == tag)) }) := by
+  have hp : (Phase.pre == Phase.pre) = true := rfl
+  have hX : ∀ (b : Bool) (jr : List (String × String × String × Nat)),
+      (if b = true then { s with jobResults := jr } else s).nodes = s.nodes ∧
+      (if b = true then { s with jobResults := jr } else s).workers = s.workers := by
+    intro b jr
+    cases b <;> exact ⟨rfl, rfl⟩
+  unfold recordResult
+  simp only [hp, if_true]
+  exact ⟨_, _, (hX _ _).1, (hX _ _).2, rfl⟩
+
+/-- A failed creation pre-step (result found and bad, or never found): what the worker's copy of the results has gained
+is filed at the object root — at most the one result the creation in flight stood for — and the root is finished. -/
+theorem pre_fail_b {g : Graph} {c : Nat} {M : Option Int} {sh : Shape} (hc : BClass g c M sh) {s sc : State} {w n : Nat}
+    {dir : Dir} {uid : String} {tag wait : Nat} (hw : w < g.workers.length) (b : BInv g c M sh s All)
+    (hpc : (s.wd w).pc = .test n .pre dir uid tag wait) (hnc : (g.node n).cls = c)
+    (hwl : sc.workers.length = s.workers.length) (hwo : ∀ v, v ≠ w → sc.wd v = s.wd v)
+    (hpa : (sc.wd w).path = (s.wd w).path) (hnodes : sc.nodes = s.nodes)
+    (hplen : (sc.wd w).preResults.length ≤ (s.nd n).results.length + 1)
+    (hpname : ∀ r ∈ (sc.wd w).preResults, NameOK g sh n r.name) :
+    BInv g c M sh (finishTraverse (appendPre sc n w) n w) (Ex w) := by
+  obtain ⟨hn, _, _, _⟩ := b.infl w trivial n .pre dir uid tag wait hpc hnc
+  have hscnd : ∀ j, sc.nd j = s.nd j := nd_of_nodes_eq' hnodes
+  have hnsc : n < sc.nodes.length := by rw [hnodes, b.nodesLen]; exact hn
+  have hndn : (appendPre sc n w).nd n =
+      { s.nd n with results := (s.nd n).results ++ (sc.wd w).preResults.drop (s.nd n).results.length } := by
+    unfold appendPre
+    rw [nd_setNd_eq sc n _ hnsc, hscnd]
+  refine finish_b hc hw b hpc hnc hwl hwo hpa ?_ (fun j hj => ?_) ?_ ?_ ?_ ?_
+  · unfold appendPre; rw [nodes_length_setNd, hnodes]
+  · unfold appendPre; rw [nd_setNd_ne sc n j _ hj]; exact hscnd j
+  · rw [hndn]
+  · rw [hndn]
+  · rw [hndn]
+    simp only [List.length_append, List.length_drop, if_true]
+    omega
+  · intro r hr
+    rw [hndn] at hr
+    rcases List.mem_append.mp hr with h | h
+    · exact b.resOwn n hn hnc r h
+    · exact hpname r (List.mem_of_mem_drop h)
+
 /-- the continuation after the awaited test: given either a node of another class, or the copy of the class with
-its `finished` mark already accounted for -/
+its `finished` mark already accounted for, or (creation pre-step) the two outcomes -/
 theorem continueAfter_b {g : Graph} {c : Nat} {M : Option Int} {sh : Shape} (hc : BClass g c M sh) (hwf : GraphWF g)
     (w n : Nat) (phase : Phase) (dir : Dir) (fuel : Nat) (hw : w < g.workers.length) (hf : 0 < fuel)
     (sc : State) (ok : Bool) (evs : List Event)
     (h : ((g.node n).cls ≠ c ∧ BInv g c M sh sc (Ex w)) ∨
-         ((g.node n).cls = c ∧ phase = .plain ∧ g.idIn w n = true ∧ BInv g c M sh (finishTraverse sc n w) (Ex w))) :
+         ((g.node n).cls = c ∧ phase ≠ .pre ∧ g.idIn w n = true ∧ BInv g c M sh (finishTraverse sc n w) (Ex w)) ∨
+         ((g.node n).cls = c ∧ phase = .pre ∧ g.idIn w n = true ∧
+           (ok = true → BInv g c M sh (startTest g sc n w .main dir).1 All) ∧
+           (ok = false → BInv g c M sh (finishTraverse (appendPre sc n w) n w) (Ex w)))) :
     BInv g c M sh (resumeTest.continueAfter g w n phase dir fuel sc ok evs).1 All := by
   -- the common tail: `afterTraverse`, then failure or the loop
   have tail : ∀ (s2 : State) (prev : Nat) (evs : List Event), BInv g c M sh s2 (Ex w) →
@@ -1262,7 +1778,7 @@ theorem continueAfter_b {g : Graph} {c : Nat} {M : Option Int} {sh : Shape} (hc 
       exact runLoop_b hc hwf w hw fuel s1 _ (b2.fr hc hw hfr) (Or.inr hf)
   unfold resumeTest.continueAfter
   dsimp only
-  rcases h with ⟨hne, b⟩ | ⟨hnc, hph, hid, b2⟩
+  rcases h with ⟨hne, b⟩ | ⟨hnc, hph, hid, b2⟩ | ⟨hnc, hph, hid, hok, hbad⟩
   · split
     · have hfr := fr_startOther g c w g sc n .main dir hne
       refine (b.fr hc hw hfr).close ?_
@@ -1276,10 +1792,18 @@ theorem continueAfter_b {g : Graph} {c : Nat} {M : Option Int} {sh : Shape} (hc 
       · exact fr_setNd g c w sc n _ (fun h => absurd h hne) (fun _ => Nat.le_refl _) (fun h => absurd h hne)
           (fun h => absurd h hne)
       · exact Fr.refl g c w sc
-  · subst hph
-    have hp : (Phase.plain == Phase.pre) = false := rfl
+  · have hp : (phase == Phase.pre) = false := by cases phase <;> first | rfl | exact absurd rfl hph
     simp only [hp, Bool.false_and, Bool.false_eq_true, if_false]
     exact tail _ _ _ b2 (fun _ => hid)
+  · subst hph
+    have hp : (Phase.pre == Phase.pre) = true := rfl
+    cases ok with
+    | true =>
+      simp only [hp, Bool.and_self, if_true]
+      exact hok rfl
+    | false =>
+      simp only [hp, Bool.and_false, Bool.false_eq_true, if_false, if_true]
+      exact tail _ _ _ (hbad rfl) (fun _ => hid)
 
 theorem resumeTest_b {g : Graph} {c : Nat} {M : Option Int} {sh : Shape} (hc : BClass g c M sh) (hwf : GraphWF g)
     (s : State) (w n : Nat) (phase : Phase) (dir : Dir) (uid : String) (tag wait : Nat) (out : Outcome) (fuel : Nat)
@@ -1292,6 +1816,8 @@ theorem resumeTest_b {g : Graph} {c : Nat} {M : Option Int} {sh : Shape} (hc : B
   have hpcr : ((reportOutcome g s w n phase uid wait out).1.wd w).pc = .test n phase dir uid tag wait := by
     rw [wd_of_workers_eq hrw]; exact hpc
   have hndr : ∀ j, (reportOutcome g s w n phase uid wait out).1.nd j = s.nd j := nd_of_nodes_eq' hrn
+  have hwdr : ∀ v, (reportOutcome g s w n phase uid wait out).1.wd v = s.wd v := wd_of_workers_eq hrw
+  have hws : w < s.workers.length := by rw [b.workersLen]; exact hw
   -- the exhausted wait and the found result, for a copy of the class, go through `finish_b`
   have hother : (g.node n).cls ≠ c → BInv g c M sh (reportOutcome g s w n phase uid wait out).1 (Ex w) := by
     intro hnc
@@ -1300,46 +1826,110 @@ theorem resumeTest_b {g : Graph} {c : Nat} {M : Option Int} {sh : Shape} (hc : B
   split
   · next st0 dur _ =>
     by_cases hnc : (g.node n).cls = c
-    · obtain ⟨hn, hph, hid, _⟩ := b.infl w trivial n phase dir uid tag wait hpc hnc
-      subst hph
-      have hp : (Phase.plain == Phase.pre) = false := rfl
-      simp only [hp, Bool.false_eq_true, if_false]
-      obtain ⟨sJ, st, hJn, hJw, hrec⟩ := recordResult_nonpre (reportOutcome g s w n .plain uid wait out).1 w n .plain (by decide)
-        (g.node n).name uid tag st0 dur
-      refine continueAfter_b hc hwf w n .plain dir fuel hw hf _ _ _ (Or.inr ⟨hnc, rfl, hid, ?_⟩)
-      rw [hrec]
-      have hnJ : n < sJ.nodes.length := by rw [hJn, hrn, b.nodesLen]; exact hn
-      have hJnd : ∀ j, sJ.nd j = s.nd j := fun j => (nd_of_nodes_eq' hJn j).trans (hndr j)
-      have hok := bas.pcOK w n .plain dir uid tag wait trivial hpc
-      have hmem := (bas.placeholder w n .plain dir uid tag wait trivial hpc).1 (by decide)
-      refine finish_b hc hw b hpc hnc (hJw.trans hrw) ?_ (fun j hj => ?_) ?_ ?_ ?_ ?_
-      · rw [nodes_length_setNd, hJn, hrn]
-      · rw [nd_setNd_ne sJ n j _ hj]; exact hJnd j
-      · rw [nd_setNd_eq sJ n _ hnJ, hJnd]
-      · rw [nd_setNd_eq sJ n _ hnJ, hJnd]
-      · rw [nd_setNd_eq sJ n _ hnJ, hJnd]
-        have h1 := settle_len (s.nd n).results ({ name := (g.node n).name, status := st, uid := uid, dur := dur } : Result) tag
-          (isPh_res_false _ tag rfl hok.2.1)
-        have h2 : 0 < ((s.nd n).results.filter (isPh tag)).length :=
-          List.length_pos_of_mem (List.mem_filter.mpr ⟨hmem, by rw [isPh_phOf]; simp⟩)
-        show (((s.nd n).results ++ [_]).filter (fun r => !isPh tag r)).length ≤ _
-        omega
-      · intro r hr
-        rw [nd_setNd_eq sJ n _ hnJ, hJnd] at hr
-        rcases List.mem_append.mp (List.mem_filter.mp hr).1 with h' | h'
-        · exact b.resOwn n hn hnc r h'
-        · rw [List.mem_singleton.mp h']
+    · obtain ⟨hn, hpre, hid, _⟩ := b.infl w trivial n phase dir uid tag wait hpc hnc
+      have hok := bas.pcOK w n phase dir uid tag wait trivial hpc
+      by_cases hph : phase = .pre
+      · -- the creation pre-step: the result replaces the placeholder on the worker's copy
+        subst hph
+        obtain ⟨hroot, hplen, hpname⟩ := hpre rfl
+        have hp : (Phase.pre == Phase.pre) = true := rfl
+        simp only [hp, if_true]
+        obtain ⟨sJ, st, hJn, hJw, hrec⟩ := recordResult_pre (reportOutcome g s w n .pre uid wait out).1 w n
+          (s.wd w).preName uid tag st0 dur
+        rw [hrec]
+        have hJwd : ∀ v, sJ.wd v = s.wd v := fun v => (wd_of_workers_eq hJw v).trans (hwdr v)
+        have hwJ : w < sJ.workers.length := by rw [hJw, hrw]; exact hws
+        have hmem := (bas.placeholder w n .pre dir uid tag wait trivial hpc).2 rfl
+        have hscw := wd_setWd_eq sJ w (fun d => { d with
+          preResults := (d.preResults ++ [({ name := (s.wd w).preName, status := st, uid := uid, dur := dur } : Result)]).filter
+            (fun r => !(r.status == "UNKNOWN" && r.tag == tag)) }) hwJ
+        have hwl : (sJ.setWd w (fun d => { d with
+            preResults := (d.preResults ++ [({ name := (s.wd w).preName, status := st, uid := uid, dur := dur } : Result)]).filter
+              (fun r => !(r.status == "UNKNOWN" && r.tag == tag)) })).workers.length = s.workers.length := by
+          rw [workers_length_setWd, hJw, hrw]
+        have hwo : ∀ v, v ≠ w → (sJ.setWd w (fun d => { d with
+            preResults := (d.preResults ++ [({ name := (s.wd w).preName, status := st, uid := uid, dur := dur } : Result)]).filter
+              (fun r => !(r.status == "UNKNOWN" && r.tag == tag)) })).wd v = s.wd v :=
+          fun v hv => (wd_setWd_ne sJ w v _ hv).trans (hJwd v)
+        have hnodes : (sJ.setWd w (fun d => { d with
+            preResults := (d.preResults ++ [({ name := (s.wd w).preName, status := st, uid := uid, dur := dur } : Result)]).filter
+              (fun r => !(r.status == "UNKNOWN" && r.tag == tag)) })).nodes = s.nodes := by
+          show sJ.nodes = _
+          rw [hJn, hrn]
+        generalize sJ.setWd w (fun d => { d with
+            preResults := (d.preResults ++ [({ name := (s.wd w).preName, status := st, uid := uid, dur := dur } : Result)]).filter
+              (fun r => !(r.status == "UNKNOWN" && r.tag == tag)) }) = sc at hscw hwl hwo hnodes ⊢
+        have hpa : (sc.wd w).path = (s.wd w).path := by rw [hscw, hJwd]
+        have hpr : (sc.wd w).preResults = ((s.wd w).preResults ++
+            [({ name := (s.wd w).preName, status := st, uid := uid, dur := dur } : Result)]).filter (fun r => !isPh tag r) := by
+          rw [hscw, hJwd]; rfl
+        refine continueAfter_b hc hwf w n .pre dir fuel hw hf _ _ _ (Or.inr (Or.inr ⟨hnc, rfl, hid, fun _ => ?_, fun _ => ?_⟩))
+        · exact main_start_b hc hw b hpc hnc hwl hwo hpa hnodes
+        · refine pre_fail_b hc hw b hpc hnc hwl hwo hpa hnodes ?_ ?_
+          · rw [hpr]
+            have h1 := settle_len (s.wd w).preResults ({ name := (s.wd w).preName, status := st, uid := uid, dur := dur } : Result) tag
+              (isPh_res_false _ tag rfl hok.2.1)
+            have h2 : 0 < ((s.wd w).preResults.filter (isPh tag)).length :=
+              List.length_pos_of_mem (List.mem_filter.mpr ⟨hmem, by rw [isPh_phOf]; simp⟩)
+            omega
+          · intro r hr
+            rw [hpr] at hr
+            rcases List.mem_append.mp (List.mem_filter.mp hr).1 with h' | h'
+            · exact hpname r h'
+            · rw [List.mem_singleton.mp h']
+              right
+              refine ⟨hroot, fun v hv hin => ?_⟩
+              have hin' : strIn (scopeFilter g sh v) (preNameOf g n w) = true := by
+                rw [← hok.2.2.2.2 rfl]; exact hin
+              exact hc.preScope n hn hnc hroot w v hw hv hid hin'
+      · -- a test proper: the result replaces the placeholder on the copy
+        have hp : (phase == Phase.pre) = false := by cases phase <;> first | rfl | exact absurd rfl hph
+        simp only [hp, Bool.false_eq_true, if_false]
+        obtain ⟨sJ, st, hJn, hJw, hrec⟩ := recordResult_nonpre (reportOutcome g s w n phase uid wait out).1 w n phase hph
+          (g.node n).name uid tag st0 dur
+        refine continueAfter_b hc hwf w n phase dir fuel hw hf _ _ _ (Or.inr (Or.inl ⟨hnc, hph, hid, ?_⟩))
+        rw [hrec]
+        have hnJ : n < sJ.nodes.length := by rw [hJn, hrn, b.nodesLen]; exact hn
+        have hJnd : ∀ j, sJ.nd j = s.nd j := fun j => (nd_of_nodes_eq' hJn j).trans (hndr j)
+        have hJwd : ∀ v, sJ.wd v = s.wd v := fun v => (wd_of_workers_eq hJw v).trans (hwdr v)
+        have hmem := (bas.placeholder w n phase dir uid tag wait trivial hpc).1 hph
+        refine finish_b hc hw b hpc hnc (by show sJ.workers.length = _; rw [hJw, hrw]) (fun v _ => hJwd v) (hJwd w ▸ rfl)
+          ?_ (fun j hj => ?_) ?_ ?_ ?_ ?_
+        · rw [nodes_length_setNd, hJn, hrn]
+        · rw [nd_setNd_ne sJ n j _ hj]; exact hJnd j
+        · rw [nd_setNd_eq sJ n _ hnJ, hJnd]
+        · rw [nd_setNd_eq sJ n _ hnJ, hJnd]
+        · rw [nd_setNd_eq sJ n _ hnJ, hJnd]
+          have h1 := settle_len (s.nd n).results ({ name := (g.node n).name, status := st, uid := uid, dur := dur } : Result) tag
+            (isPh_res_false _ tag rfl hok.2.1)
+          have h2 : 0 < ((s.nd n).results.filter (isPh tag)).length :=
+            List.length_pos_of_mem (List.mem_filter.mpr ⟨hmem, by rw [isPh_phOf]; simp⟩)
+          simp only [hph, if_false, Nat.add_zero]
+          show (((s.nd n).results ++ [_]).filter (fun r => !isPh tag r)).length ≤ _
+          omega
+        · intro r hr
+          rw [nd_setNd_eq sJ n _ hnJ, hJnd] at hr
+          rcases List.mem_append.mp (List.mem_filter.mp hr).1 with h' | h'
+          · exact b.resOwn n hn hnc r h'
+          · rw [List.mem_singleton.mp h']; exact Or.inl rfl
     · refine continueAfter_b hc hwf w n phase dir fuel hw hf _ _ _ (Or.inl ⟨hnc, ?_⟩)
       exact (hother hnc).fr hc hw (fr_recordResult_other g c _ w n phase _ uid tag st0 dur hnc)
   · have hexh : BInv g c M sh (resumeTest.continueAfter g w n phase dir fuel (reportOutcome g s w n phase uid wait out).1 false
         (reportOutcome g s w n phase uid wait out).2).1 All := by
       by_cases hnc : (g.node n).cls = c
-      · obtain ⟨hn, hph, hid, _⟩ := b.infl w trivial n phase dir uid tag wait hpc hnc
-        refine continueAfter_b hc hwf w n phase dir fuel hw hf _ _ _ (Or.inr ⟨hnc, hph, hid, ?_⟩)
-        refine finish_b hc hw b hpc hnc hrw (by rw [hrn]) (fun j _ => hndr j) (by rw [hndr]) (by rw [hndr])
-          (by rw [hndr]; exact Nat.le_refl _) (fun r hr => ?_)
-        rw [hndr] at hr
-        exact b.resOwn n hn hnc r hr
+      · obtain ⟨hn, hpre, hid, _⟩ := b.infl w trivial n phase dir uid tag wait hpc hnc
+        by_cases hph : phase = .pre
+        · subst hph
+          obtain ⟨hroot, hplen, hpname⟩ := hpre rfl
+          refine continueAfter_b hc hwf w n .pre dir fuel hw hf _ _ _
+            (Or.inr (Or.inr ⟨hnc, rfl, hid, (fun h => by cases h), fun _ => ?_⟩))
+          exact pre_fail_b hc hw b hpc hnc (by rw [hrw]) (fun v _ => hwdr v) (by rw [hwdr]) hrn (by rw [hwdr]; exact hplen)
+            (by rw [hwdr]; exact hpname)
+        · refine continueAfter_b hc hwf w n phase dir fuel hw hf _ _ _ (Or.inr (Or.inl ⟨hnc, hph, hid, ?_⟩))
+          refine finish_b hc hw b hpc hnc (by rw [hrw]) (fun v _ => hwdr v) (by rw [hwdr]) (by rw [hrn]) (fun j _ => hndr j)
+            (by rw [hndr]) (by rw [hndr]) (by rw [hndr]; omega) (fun r hr => ?_)
+          rw [hndr] at hr
+          exact b.resOwn n hn hnc r hr
       · exact continueAfter_b hc hwf w n phase dir fuel hw hf _ _ _ (Or.inl ⟨hnc, hother hnc⟩)
     split
     · exact br.rewait hpcr (wait + 1)
@@ -1375,7 +1965,7 @@ theorem binv_init {g : Graph} {c : Nat} {M : Option Int} {sh : Shape} (hc : BCla
     · right; rfl
     · left; rfl
   refine ⟨by simp [initState], by simp [initState], fun v x hx => ?_, fun j u _ _ h => ?_,
-    fun u _ n ph dir uid tag wait hpc _ => ?_, fun j _ _ r hr => ?_, fun j _ _ hne => ?_, fun v _ => ?_⟩
+    fun u _ n ph dir uid tag wait hpc _ => ?_, fun j _ _ r hr => ?_, fun j _ _ hne => ?_, fun v _ P _ hPm => ?_⟩
   · rcases hwd v with h | h
     · rw [h] at hx
       have : x = g.root := by simpa using hx
@@ -1396,7 +1986,15 @@ theorem binv_init {g : Graph} {c : Nat} {M : Option Int} {sh : Shape} (hc : BCla
       induction l with
       | nil => rfl
       | cons a r ih => simp only [List.map_cons, List.sum_cons, ih]
-    rw [this]
+    have hP : P = [] := by
+      cases P with
+      | nil => rfl
+      | cons u r =>
+        exfalso
+        obtain ⟨_, j, dir, uid, tag, wait, hpc, _⟩ := hPm u List.mem_cons_self
+        rcases hwd u with h | h <;> rw [h] at hpc <;> cases hpc
+    rw [this, hP]
+    simp only [List.length_nil]
     omega
 
 theorem ReachableR.binv {g : Graph} (hwf : graphWF g = true) {c : Nat} {M : Option Int} {sh : Shape} (hc : BClass g c M sh)
@@ -1408,7 +2006,7 @@ theorem ReachableR.binv {g : Graph} (hwf : graphWF g = true) {c : Nat} {M : Opti
 
 /-! ## the decidable form of the hypotheses, and the run-level bound -/
 
-/-- decidable form of `BClass` -/
+/-- decidable form of `BClass` for classes without object roots (any `max_tries`) -/
 def statefulClass (g : Graph) (c : Nat) (M : Option Int) (sh : Shape) : Bool :=
   !((g.node g.root).cls == c) &&
   (g.classNodes c).all (fun j =>
@@ -1424,9 +2022,10 @@ theorem statefulClass_spec {g : Graph} {c : Nat} {M : Option Int} {sh : Shape} (
     List.mem_range, Bool.or_eq_true, beq_iff_eq] at h
   obtain ⟨hroot, hall⟩ := h
   have hj : ∀ j, j < g.nodes.length → (g.node j).cls = c → _ := fun j h1 h2 => hall j ((mem_classNodes g c j).mpr ⟨h1, h2⟩)
-  refine ⟨hroot, fun j h1 h2 => ?_, fun j h1 h2 u v hu hv hiu hiv => ?_, fun j h1 h2 u v hu hv hiu => ?_⟩
+  refine ⟨hroot, fun j h1 h2 => ?_, fun j h1 h2 u v hu hv hiu hiv => ?_, fun j h1 h2 u v hu hv hiu => ?_,
+    fun j h1 h2 hr => ?_⟩
   · obtain ⟨⟨⟨⟨⟨a1, a2⟩, a3⟩, a4⟩, a5⟩, _⟩ := hj j h1 h2
-    exact ⟨a1, a2, a3, a4, a5⟩
+    exact ⟨a1, Or.inl a2, a3, a4, a5⟩
   · obtain ⟨_, a6⟩ := hj j h1 h2
     rcases a6 u hu with h' | h'
     · rw [hiu] at h'; cases h'
@@ -1437,6 +2036,51 @@ theorem statefulClass_spec {g : Graph} {c : Nat} {M : Option Int} {sh : Shape} (
     rcases a6 u hu with h' | h'
     · rw [hiu] at h'; cases h'
     · exact (h' v hv).2
+  · obtain ⟨⟨⟨⟨⟨_, a2⟩, _⟩, _⟩, _⟩, _⟩ := hj j h1 h2
+    rw [hr] at a2; cases a2
+
+/-- decidable form of `BClass` for classes that may contain object roots: `max_tries` is unset or at most 1 (so that
+the rerun rule never fires — with `max_tries ≥ 2` the bound is false for object roots, `root_creation_hidden`), and an
+observer whose filter matches the name of the creation pre-step of a root also sees the root (a failed pre-step files
+its result, named like the pre-step, at the root).  The last clause is evaluated only for object roots the observer does
+not see anyway. -/
+def statefulClassRoots (g : Graph) (c : Nat) (M : Option Int) (sh : Shape) : Bool :=
+  decide (M.getD 1 ≤ 1) && !((g.node g.root).cls == c) &&
+  (g.classNodes c).all (fun j =>
+    !(g.node j).flat && !(g.node j).sets.isEmpty && decide ((g.node j).maxTries = M) &&
+    decide ((g.node j).shape = sh) &&
+    (List.range g.workers.length).all (fun u => !g.idIn u j ||
+      (List.range g.workers.length).all (fun v => (!g.idIn v j || u == v) && (seen g sh v j == inScopeOf sh g v u) &&
+        (!(g.node j).objectRoot || seen g sh v j || !strIn (scopeFilter g sh v) (preNameOf g j u)))))
+
+theorem statefulClassRoots_spec {g : Graph} {c : Nat} {M : Option Int} {sh : Shape} (h : statefulClassRoots g c M sh = true) :
+    BClass g c M sh ∧ M.getD 1 ≤ 1 := by
+  unfold statefulClassRoots at h
+  simp only [Bool.and_eq_true, Bool.not_eq_true', beq_eq_false_iff_ne, ne_eq, List.all_eq_true, decide_eq_true_eq,
+    List.mem_range, Bool.or_eq_true, beq_iff_eq] at h
+  obtain ⟨⟨hM, hroot⟩, hall⟩ := h
+  have hj : ∀ j, j < g.nodes.length → (g.node j).cls = c → _ := fun j h1 h2 => hall j ((mem_classNodes g c j).mpr ⟨h1, h2⟩)
+  refine ⟨⟨hroot, fun j h1 h2 => ?_, fun j h1 h2 u v hu hv hiu hiv => ?_, fun j h1 h2 u v hu hv hiu => ?_,
+    fun j h1 h2 hr u v hu hv hiu hin => ?_⟩, hM⟩
+  · obtain ⟨⟨⟨⟨a1, a3⟩, a4⟩, a5⟩, _⟩ := hj j h1 h2
+    exact ⟨a1, Or.inr hM, a3, a4, a5⟩
+  · obtain ⟨_, a6⟩ := hj j h1 h2
+    rcases a6 u hu with h' | h'
+    · rw [hiu] at h'; cases h'
+    · rcases (h' v hv).1.1 with h'' | h''
+      · rw [hiv] at h''; cases h''
+      · exact h''
+  · obtain ⟨_, a6⟩ := hj j h1 h2
+    rcases a6 u hu with h' | h'
+    · rw [hiu] at h'; cases h'
+    · exact (h' v hv).1.2
+  · obtain ⟨_, a6⟩ := hj j h1 h2
+    rcases a6 u hu with h' | h'
+    · rw [hiu] at h'; cases h'
+    · rcases (h' v hv).2 with (h'' | h'') | h''
+      · rw [hr] at h''; cases h''
+      · exact h''
+      · rw [hin] at h''; cases h''
 
 /-- `max_concurrent_tries` is unset or at most `max(max_tries, 1)` on every copy of the class -/
 def mctWithin (g : Graph) (c : Nat) (M : Option Int) : Bool :=
@@ -1459,16 +2103,55 @@ theorem classLimit_le_of_mctWithin {g : Graph} {c : Nat} {M : Option Int} {sh : 
       omega)
   omega
 
-/-- **The budget of a stateful class along every run.** -/
+/-- the workers inside the creation pre-step of a copy of class `c` that observer `v` sees: results-to-be -/
+def creationsInFlight (g : Graph) (s : State) (c : Nat) (sh : Shape) (v : Nat) : List Nat :=
+  (List.range g.workers.length).filter (fun u =>
+    match (s.wd u).pc with
+    | .test j .pre _ _ _ _ => (g.node j).cls == c && seen g sh v j
+    | _ => false)
+
+theorem inCre_of_mem_creationsInFlight {g : Graph} {s : State} {c : Nat} {sh : Shape} {v u : Nat}
+    (h : u ∈ creationsInFlight g s c sh v) : InCre g s c sh v u := by
+  unfold creationsInFlight at h
+  have h2 := (List.mem_filter.mp h).2
+  split at h2
+  · next j dir uid tag wait hpc =>
+    rw [Bool.and_eq_true, beq_iff_eq] at h2
+    exact ⟨j, dir, uid, tag, wait, hpc, h2.1, h2.2⟩
+  · cases h2
+
+/-- **The budget of a stateful class along every run**, creations in flight counted as results-to-be. -/
+theorem ReachableR.budgetB {g : Graph} (hwf : graphWF g = true) {c : Nat} {M : Option Int} {sh : Shape}
+    (hC : BClass g c M sh) {ncls : Nat} {store : List (String × List (String × String))} {s : State}
+    (h : ReachableR g ncls store s) (n : Nat) (hn : n < g.nodes.length) (hnc : (g.node n).cls = c) (v : Nat)
+    (hv : v < g.workers.length) :
+    (((sharedFilteredResults g s n (some v)).length + (creationsInFlight g s c sh v).length : Nat) : Int) ≤
+      max (max (M.getD 1) 1) (classLimit g s c) := by
+  have b := h.binv hwf hC
+  have hnode := hC.node n hn hnc
+  have h1 := sfr_length_le g s c sh n v hn hnode.1 hnc hnode.2.2.2.2 hv b.resOwn
+  have h2 := b.budget v hv (creationsInFlight g s c sh v) (List.Nodup.sublist List.filter_sublist List.nodup_range)
+    (fun u hu => ⟨trivial, inCre_of_mem_creationsInFlight hu⟩)
+  omega
+
+/-- … for classes without object roots (no creations) -/
 theorem ReachableR.budgetStateful {g : Graph} (hwf : graphWF g = true) {c : Nat} {M : Option Int} {sh : Shape}
     (hc : statefulClass g c M sh = true) {ncls : Nat} {store : List (String × List (String × String))} {s : State}
     (h : ReachableR g ncls store s) (n : Nat) (hn : n < g.nodes.length) (hnc : (g.node n).cls = c) (v : Nat)
     (hv : v < g.workers.length) :
     ((sharedFilteredResults g s n (some v)).length : Int) ≤ max (max (M.getD 1) 1) (classLimit g s c) := by
-  have hC := statefulClass_spec hc
-  have b := h.binv hwf hC
-  have hnode := hC.node n hn hnc
-  rw [sfr_length g s c sh n v hn hnode.1 hnc hnode.2.2.2.2 b.resOwn]
-  exact b.budget v hv
+  have := h.budgetB hwf (statefulClass_spec hc) n hn hnc v hv
+  omega
+
+/-- … for classes with object roots and `max_tries ≤ 1` -/
+theorem ReachableR.budgetStatefulRoots {g : Graph} (hwf : graphWF g = true) {c : Nat} {M : Option Int} {sh : Shape}
+    (hc : statefulClassRoots g c M sh = true) {ncls : Nat} {store : List (String × List (String × String))} {s : State}
+    (h : ReachableR g ncls store s) (n : Nat) (hn : n < g.nodes.length) (hnc : (g.node n).cls = c) (v : Nat)
+    (hv : v < g.workers.length) :
+    (((sharedFilteredResults g s n (some v)).length + (creationsInFlight g s c sh v).length : Nat) : Int) ≤
+      max 1 (classLimit g s c) := by
+  obtain ⟨hC, hM⟩ := statefulClassRoots_spec hc
+  have := h.budgetB hwf hC n hn hnc v hv
+  omega
 
 end I2N.Trav
